@@ -1,14 +1,2480 @@
-//! C11 — not implemented yet (stub).
-use crate::report::{Cfg, Meta, Report};
+//! C11 — assembly is deterministic, history-independent and self-contained (HISTORY monitor).
+//!
+//! Four oracles share this module:
+//!  1. history: one assembler instance compiles a random sequence of programs over a generated
+//!     universe of libraries (+ kernel); every program is also compiled on a fresh instance; root
+//!     hash, kernel, code-block table and execution must agree, and no statically referenced
+//!     call / syscall / procref target may be missing from the code block table.
+//!  2. library order: all permutations of `with_library` order give identical programs.
+//!  3. re-export: a procedure reached through a re-export has the MAST root of the original.
+//!  4. invalid corpus: every documented rejection class (docs/src/user_docs/assembly/*.md) with
+//!     boundary parameters gives `Err` (no panic, not accepted); decorator-only bodies (valid per
+//!     the docs) must not panic.
 
-pub fn meta() -> Meta {
-    Meta { level: "exploration", rule: "stub".into(), assumptions: vec![] }
+use crate::case::{build_lib, err_kind, AsmOutcome, Case, LibSrc};
+use crate::host::QuietHost;
+use crate::report::{merge_all, truncate, Cfg, Meta, Report};
+use crate::util::{catch, felts, par_map, rng_for, PanicInfo, Rng8, P};
+use assembly::{ast::ProgramAst, Assembler, MaslLibrary};
+use processor::{
+    DefaultHost, ExecutionError, ExecutionOptions, MemAdviceProvider, Process, Program, StackInputs,
+};
+use rand::seq::SliceRandom;
+use rand::Rng;
+use serde_json::{json, Value};
+use std::collections::{BTreeMap, BTreeSet};
+use vm_core::code_blocks::{CodeBlock, Dyn};
+use vm_core::crypto::hash::RpoDigest;
+use vm_core::Felt;
+
+type W = [u64; 4];
+const PROG: usize = usize::MAX;
+
+fn to_w(d: RpoDigest) -> W {
+    let e = d.as_elements();
+    [e[0].as_int(), e[1].as_int(), e[2].as_int(), e[3].as_int()]
+}
+fn to_d(w: &W) -> RpoDigest {
+    RpoDigest::from([Felt::new(w[0]), Felt::new(w[1]), Felt::new(w[2]), Felt::new(w[3])])
+}
+fn w_str(w: &W) -> String {
+    format!("{}.{}.{}.{}", w[0], w[1], w[2], w[3])
+}
+fn w_parse(s: &str) -> Option<W> {
+    let v: Vec<u64> = s.split('.').filter_map(|x| x.parse().ok()).collect();
+    if v.len() == 4 {
+        Some([v[0], v[1], v[2], v[3]])
+    } else {
+        None
+    }
 }
 
-pub fn run(_cfg: &Cfg) -> Report {
-    let mut rep = Report::new();
-    rep.inconclusive("not-implemented");
+// UNIVERSE MODEL
+// ================================================================================================
+
+#[derive(Clone, Debug)]
+struct Tgt {
+    m: usize,
+    name: String,
+}
+
+/// what follows a hash that was put on the stack
+#[derive(Clone, Copy, Debug, PartialEq, Eq)]
+enum Dk {
+    No,
+    Exec,
+    Call,
+}
+
+impl Dk {
+    fn text(&self) -> &'static str {
+        match self {
+            Dk::No => "",
+            Dk::Exec => " dynexec",
+            Dk::Call => " dyncall",
+        }
+    }
+    fn bit(&self) -> u8 {
+        match self {
+            Dk::No => 0,
+            Dk::Exec => 1,
+            Dk::Call => 2,
+        }
+    }
+    fn kind(&self) -> Option<&'static str> {
+        match self {
+            Dk::No => None,
+            Dk::Exec => Some("dynexec"),
+            Dk::Call => Some("dyncall"),
+        }
+    }
+}
+
+#[derive(Clone, Debug)]
+enum Item {
+    /// stack-neutral instruction text
+    Plain(String),
+    Exec(Tgt),
+    Call(Tgt),
+    Sys(String),
+    /// `procref.t [dynexec|dyncall] dropw`
+    Pref(Tgt, Dk),
+    /// literal push of a MAST root (a *dynamic* reference), `[dynexec|dyncall] dropw`
+    Lit(W, Dk),
+    /// `exec.<pusher> [dynexec|dyncall] dropw` where the pusher leaves a MAST root on the stack
+    Pusher(Tgt, Dk),
+    If(bool, Vec<Item>, Vec<Item>),
+    Rep(u32, Vec<Item>),
+    While(bool, Vec<Item>),
+}
+
+#[derive(Clone, Debug)]
+enum PK {
+    Normal(Vec<Item>),
+    /// body = `push.h0.h1.h2.h3`
+    PushLit(W),
+    /// body = `procref.t`
+    PushRef(Tgt),
+    /// body = `exec.<pusher>`
+    PushWrap(Tgt),
+    /// `export.<alias>::<orig>[->name]`
+    ReExp(Tgt),
+}
+
+#[derive(Clone, Debug)]
+struct Proc {
+    name: String,
+    export: bool,
+    locals: u16,
+    kind: PK,
+}
+
+#[derive(Clone, Debug, Default)]
+struct Module {
+    path: String,
+    lib: usize,
+    imports: Vec<(usize, Option<String>)>,
+    procs: Vec<Proc>,
+    main: Option<Vec<Item>>,
+}
+
+#[derive(Clone, Debug, Default)]
+struct Universe {
+    ns: Vec<String>,
+    mods: Vec<Module>,
+    kernel: Option<Module>,
+    roots: BTreeMap<(usize, String), W>,
+    kroots: BTreeMap<String, W>,
+}
+
+fn last_comp(path: &str) -> &str {
+    path.rsplit("::").next().unwrap_or(path)
+}
+
+impl Universe {
+    fn module<'a>(&'a self, idx: usize, prog: Option<&'a Module>) -> &'a Module {
+        if idx == PROG {
+            prog.expect("program module")
+        } else {
+            &self.mods[idx]
+        }
+    }
+
+    fn find<'a>(&'a self, t: &Tgt, prog: Option<&'a Module>) -> Option<&'a Proc> {
+        self.module(t.m, prog).procs.iter().find(|p| p.name == t.name)
+    }
+
+    /// follows re-exports
+    fn resolve(&self, t: &Tgt, prog: Option<&Module>) -> Tgt {
+        let mut cur = t.clone();
+        for _ in 0..16 {
+            match self.find(&cur, prog).map(|p| &p.kind) {
+                Some(PK::ReExp(n)) => cur = n.clone(),
+                _ => break,
+            }
+        }
+        cur
+    }
+
+    fn is_pusher(&self, t: &Tgt, prog: Option<&Module>) -> bool {
+        let r = self.resolve(t, prog);
+        matches!(
+            self.find(&r, prog).map(|p| &p.kind),
+            Some(PK::PushLit(_)) | Some(PK::PushRef(_)) | Some(PK::PushWrap(_))
+        )
+    }
+
+    fn qual(&self, m: &Module, self_idx: usize, t: &Tgt) -> String {
+        if t.m == self_idx {
+            t.name.clone()
+        } else {
+            let al = m
+                .imports
+                .iter()
+                .find(|(i, _)| *i == t.m)
+                .map(|(i, a)| a.clone().unwrap_or_else(|| last_comp(&self.mods[*i].path).to_string()))
+                .unwrap_or_else(|| "missing_import".to_string());
+            format!("{al}::{}", t.name)
+        }
+    }
+
+    fn render_items(&self, m: &Module, idx: usize, items: &[Item], out: &mut String) {
+        for it in items {
+            match it {
+                Item::Plain(s) => {
+                    out.push_str(s);
+                    out.push(' ');
+                }
+                Item::Exec(t) => out.push_str(&format!("exec.{} ", self.qual(m, idx, t))),
+                Item::Call(t) => out.push_str(&format!("call.{} ", self.qual(m, idx, t))),
+                Item::Sys(k) => out.push_str(&format!("syscall.{k} ")),
+                Item::Pref(t, d) => {
+                    out.push_str(&format!("procref.{}{} dropw ", self.qual(m, idx, t), d.text()))
+                }
+                Item::Lit(w, d) => out.push_str(&format!("push.{}{} dropw ", w_str(w), d.text())),
+                Item::Pusher(t, d) => {
+                    out.push_str(&format!("exec.{}{} dropw ", self.qual(m, idx, t), d.text()))
+                }
+                Item::If(taken, a, b) => {
+                    out.push_str(&format!("push.{} if.true ", *taken as u8));
+                    self.render_items(m, idx, a, out);
+                    if !b.is_empty() {
+                        out.push_str("else ");
+                        self.render_items(m, idx, b, out);
+                    }
+                    out.push_str("end ");
+                }
+                Item::Rep(n, a) => {
+                    out.push_str(&format!("repeat.{n} "));
+                    self.render_items(m, idx, a, out);
+                    out.push_str("end ");
+                }
+                Item::While(run, a) => {
+                    out.push_str(&format!("push.{} while.true ", *run as u8));
+                    self.render_items(m, idx, a, out);
+                    out.push_str("push.0 end ");
+                }
+            }
+        }
+    }
+
+    fn render_imports(&self, m: &Module, out: &mut String) {
+        for (i, al) in &m.imports {
+            match al {
+                Some(a) => out.push_str(&format!("use.{}->{}\n", self.mods[*i].path, a)),
+                None => out.push_str(&format!("use.{}\n", self.mods[*i].path)),
+            }
+        }
+    }
+
+    fn render_proc(&self, m: &Module, idx: usize, p: &Proc, as_internal: bool, out: &mut String) {
+        let kw = if p.export && !as_internal { "export" } else { "proc" };
+        let mut body = String::new();
+        match &p.kind {
+            PK::ReExp(_) => return,
+            PK::Normal(items) => self.render_items(m, idx, items, &mut body),
+            PK::PushLit(w) => body.push_str(&format!("push.{} ", w_str(w))),
+            PK::PushRef(t) => body.push_str(&format!("procref.{} ", self.qual(m, idx, t))),
+            PK::PushWrap(t) => body.push_str(&format!("exec.{} ", self.qual(m, idx, t))),
+        }
+        if p.locals > 0 {
+            out.push_str(&format!("{kw}.{}.{}\n    {}\nend\n", p.name, p.locals, body.trim_end()));
+        } else {
+            out.push_str(&format!("{kw}.{}\n    {}\nend\n", p.name, body.trim_end()));
+        }
+    }
+
+    /// full source of a library module, kernel module or program
+    fn render(&self, m: &Module, idx: usize) -> String {
+        let mut out = String::new();
+        self.render_imports(m, &mut out);
+        for p in &m.procs {
+            if let PK::ReExp(t) = &p.kind {
+                let q = self.qual(m, idx, t);
+                if p.name == t.name {
+                    out.push_str(&format!("export.{q}\n"));
+                } else {
+                    out.push_str(&format!("export.{q}->{}\n", p.name));
+                }
+            }
+        }
+        for p in &m.procs {
+            self.render_proc(m, idx, p, false, &mut out);
+        }
+        if let Some(main) = &m.main {
+            let mut body = String::new();
+            self.render_items(m, idx, main, &mut body);
+            out.push_str(&format!("begin\n    {}\nend\n", body.trim_end()));
+        }
+        out
+    }
+
+    /// the module rendered as a program whose body is `exec.<name>`: its hash is the MAST root of
+    /// the procedure (all procedures up to `name` are rendered as internal ones)
+    fn render_root_probe(&self, m: &Module, idx: usize, name: &str) -> String {
+        let mut out = String::new();
+        self.render_imports(m, &mut out);
+        for p in &m.procs {
+            self.render_proc(m, idx, p, true, &mut out);
+            if p.name == name {
+                break;
+            }
+        }
+        out.push_str(&format!("begin exec.{name} end\n"));
+        out
+    }
+
+    fn lib_srcs(&self, upto: usize) -> Vec<LibSrc> {
+        let mut libs: Vec<LibSrc> =
+            self.ns.iter().map(|n| LibSrc { namespace: n.clone(), modules: vec![] }).collect();
+        for (i, m) in self.mods.iter().enumerate().take(upto) {
+            libs[m.lib].modules.push((m.path.clone(), self.render(m, i)));
+        }
+        libs.retain(|l| !l.modules.is_empty());
+        libs
+    }
+
+    fn kernel_src(&self) -> Option<String> {
+        self.kernel.as_ref().map(|k| self.render(k, PROG - 1))
+    }
+
+    /// modules directly referenced by the procedures of module `m`
+    fn direct_deps(&self, m: &Module) -> BTreeSet<usize> {
+        fn items(it: &[Item], out: &mut BTreeSet<usize>) {
+            for i in it {
+                match i {
+                    Item::Exec(t) | Item::Call(t) | Item::Pref(t, _) | Item::Pusher(t, _) => {
+                        out.insert(t.m);
+                    }
+                    Item::If(_, a, b) => {
+                        items(a, out);
+                        items(b, out);
+                    }
+                    Item::Rep(_, a) | Item::While(_, a) => items(a, out),
+                    _ => {}
+                }
+            }
+        }
+        let mut out = BTreeSet::new();
+        for p in &m.procs {
+            match &p.kind {
+                PK::Normal(b) => items(b, &mut out),
+                PK::PushRef(t) | PK::PushWrap(t) | PK::ReExp(t) => {
+                    out.insert(t.m);
+                }
+                PK::PushLit(_) => {}
+            }
+        }
+        if let Some(b) = &m.main {
+            items(b, &mut out);
+        }
+        out.remove(&PROG);
+        out
+    }
+
+    /// library modules the assembler has to load when compiling `prog` (transitively)
+    fn load_closure(&self, prog: &Module) -> BTreeSet<usize> {
+        let mut seen = BTreeSet::new();
+        let mut todo: Vec<usize> = self.direct_deps(prog).into_iter().collect();
+        while let Some(i) = todo.pop() {
+            if i < self.mods.len() && seen.insert(i) {
+                todo.extend(self.direct_deps(&self.mods[i]));
+            }
+        }
+        seen
+    }
+}
+
+// NEEDS (model of "statically referenced at run time")
+// ================================================================================================
+
+#[derive(Clone, Debug)]
+struct Inv {
+    kind: &'static str,
+    loc: &'static str,
+    /// resolved library module of the target (None: program-local / kernel / literal)
+    tm: Option<usize>,
+    root: Option<W>,
+}
+
+#[derive(Clone, Debug, Default)]
+struct Needs {
+    /// root -> registering instruction kind (call | syscall | procref)
+    set: BTreeMap<W, (&'static str, BTreeSet<(Option<W>, &'static str)>)>,
+    /// root -> bit 1: consumed by dynexec, bit 2: by dyncall
+    dynk: BTreeMap<W, u8>,
+    invs: Vec<Inv>,
+    /// (module, name) already expanded
+    seen: BTreeSet<(usize, String, Option<W>)>,
+    /// a root was not known (harness problem)
+    unknown_root: bool,
+}
+
+impl Universe {
+    fn root_of(&self, t: &Tgt, proots: &BTreeMap<String, W>, n: &mut Needs) -> Option<W> {
+        let r = if t.m == PROG {
+            proots.get(&t.name).copied()
+        } else {
+            self.roots.get(&(t.m, t.name.clone())).copied()
+        };
+        if r.is_none() {
+            n.unknown_root = true;
+        }
+        r
+    }
+
+    /// the root a pusher leaves on the stack
+    fn pushed_root(&self, t: &Tgt, prog: &Module, proots: &BTreeMap<String, W>, n: &mut Needs) -> Option<W> {
+        let r = self.resolve(t, Some(prog));
+        match self.find(&r, Some(prog)).map(|p| p.kind.clone()) {
+            Some(PK::PushLit(w)) => Some(w),
+            Some(PK::PushRef(f)) => self.root_of(&f, proots, n),
+            Some(PK::PushWrap(p)) => self.pushed_root(&p, prog, proots, n),
+            _ => None,
+        }
+    }
+
+    fn loc_of(&self, t: &Tgt, prog: &Module) -> &'static str {
+        if t.m == PROG {
+            "local"
+        } else if matches!(self.find(t, Some(prog)).map(|p| &p.kind), Some(PK::ReExp(_))) {
+            "re-exported"
+        } else {
+            "imported"
+        }
+    }
+
+    fn inv(&self, kind: &'static str, t: &Tgt, prog: &Module, proots: &BTreeMap<String, W>, n: &mut Needs) {
+        let r = self.resolve(t, Some(prog));
+        let root = self.root_of(t, proots, n);
+        n.invs.push(Inv { kind, loc: self.loc_of(t, prog), tm: if r.m == PROG { None } else { Some(r.m) }, root });
+    }
+
+    fn register(&self, w: W, kind: &'static str, par: Option<W>, n: &mut Needs) {
+        let e = n.set.entry(w).or_insert((kind, BTreeSet::new()));
+        if kind != "procref" {
+            e.0 = kind;
+        }
+        e.1.insert((par, kind));
+    }
+
+    /// `par`: the nearest enclosing registered target (None = the program itself, through inlining)
+    fn need_proc(&self, t: &Tgt, par: Option<W>, prog: &Module, proots: &BTreeMap<String, W>, n: &mut Needs) {
+        let r = self.resolve(t, Some(prog));
+        if !n.seen.insert((r.m, r.name.clone(), par)) {
+            return;
+        }
+        match self.find(&r, Some(prog)).map(|p| p.kind.clone()) {
+            Some(PK::Normal(items)) => self.need_items(&items, false, par, prog, proots, n),
+            Some(PK::PushRef(f)) => {
+                if let Some(w) = self.root_of(&f, proots, n) {
+                    self.register(w, "procref", par, n);
+                    self.need_proc(&f, Some(w), prog, proots, n);
+                }
+            }
+            Some(PK::PushWrap(p)) => self.need_proc(&p, par, prog, proots, n),
+            _ => {}
+        }
+    }
+
+    fn need_items(&self, items: &[Item], top: bool, par: Option<W>, prog: &Module, proots: &BTreeMap<String, W>, n: &mut Needs) {
+        for it in items {
+            match it {
+                Item::Plain(_) => {}
+                Item::Exec(t) => {
+                    if top {
+                        self.inv("exec", t, prog, proots, n);
+                    }
+                    self.need_proc(t, par, prog, proots, n);
+                }
+                Item::Call(t) => {
+                    if top {
+                        self.inv("call", t, prog, proots, n);
+                    }
+                    if let Some(w) = self.root_of(t, proots, n) {
+                        self.register(w, "call", par, n);
+                        self.need_proc(t, Some(w), prog, proots, n);
+                    }
+                }
+                Item::Sys(k) => {
+                    let w = self.kroots.get(k).copied();
+                    if top {
+                        n.invs.push(Inv { kind: "syscall", loc: "kernel", tm: None, root: w });
+                    }
+                    match w {
+                        Some(w) => self.register(w, "syscall", par, n),
+                        None => n.unknown_root = true,
+                    }
+                }
+                Item::Pref(t, d) => {
+                    if top {
+                        self.inv("procref", t, prog, proots, n);
+                        if let Some(k) = d.kind() {
+                            self.inv(k, t, prog, proots, n);
+                        }
+                    }
+                    if let Some(w) = self.root_of(t, proots, n) {
+                        self.register(w, "procref", par, n);
+                        *n.dynk.entry(w).or_default() |= d.bit();
+                        self.need_proc(t, Some(w), prog, proots, n);
+                    }
+                }
+                Item::Lit(w, d) => {
+                    if top {
+                        if let Some(k) = d.kind() {
+                            n.invs.push(Inv { kind: k, loc: "literal", tm: None, root: Some(*w) });
+                        }
+                    }
+                    *n.dynk.entry(*w).or_default() |= d.bit();
+                }
+                Item::Pusher(t, d) => {
+                    if top {
+                        self.inv("exec", t, prog, proots, n);
+                        if let Some(k) = d.kind() {
+                            self.inv(k, t, prog, proots, n);
+                        }
+                    }
+                    if let Some(w) = self.pushed_root(t, prog, proots, n) {
+                        *n.dynk.entry(w).or_default() |= d.bit();
+                    }
+                    self.need_proc(t, par, prog, proots, n);
+                }
+                Item::If(_, a, b) => {
+                    self.need_items(a, top, par, prog, proots, n);
+                    self.need_items(b, top, par, prog, proots, n);
+                }
+                Item::Rep(_, a) | Item::While(_, a) => self.need_items(a, top, par, prog, proots, n),
+            }
+        }
+    }
+
+    fn needs_of_program(&self, prog: &Module, proots: &BTreeMap<String, W>) -> Needs {
+        let mut n = Needs::default();
+        // invocations written in program-local procedures are part of the program source, too
+        for p in &prog.procs {
+            match &p.kind {
+                PK::Normal(items) => {
+                    let mut tmp = Needs::default();
+                    self.need_items(items, true, None, prog, proots, &mut tmp);
+                    n.invs.extend(tmp.invs);
+                }
+                PK::PushRef(f) => self.inv("procref", f, prog, proots, &mut n),
+                _ => {}
+            }
+        }
+        if let Some(main) = &prog.main {
+            self.need_items(main, true, None, prog, proots, &mut n);
+        }
+        n
+    }
+}
+
+// WORLD: sources + built libraries
+// ================================================================================================
+
+#[derive(Clone, Debug, Default)]
+struct World {
+    libs: Vec<LibSrc>,
+    kernel: Option<String>,
+    /// stack inputs (top first) used to execute every program
+    stack: Vec<u64>,
+}
+
+impl World {
+    fn to_json(&self) -> Value {
+        json!({
+            "libs": self.libs.iter().map(|l| json!({"namespace": l.namespace, "modules": l.modules})).collect::<Vec<_>>(),
+            "kernel": self.kernel,
+            "stack_top_first": self.stack.iter().map(|v| v.to_string()).collect::<Vec<_>>(),
+        })
+    }
+    fn from_json(v: &Value) -> Option<World> {
+        let c = Case::from_json(&json!({
+            "src": "",
+            "kernel": v.get("kernel").cloned().unwrap_or(Value::Null),
+            "libs": v.get("libs").cloned().unwrap_or(json!([])),
+            "stack_top_first": v.get("stack_top_first").cloned().unwrap_or(json!([])),
+        }))?;
+        Some(World { libs: c.libs, kernel: c.kernel, stack: c.stack })
+    }
+    fn build(&self) -> Result<Vec<MaslLibrary>, String> {
+        match catch(|| self.libs.iter().map(build_lib).collect::<Result<Vec<_>, _>>()) {
+            Ok(r) => r,
+            Err(p) => Err(format!("panic while building libraries: {} at {}", p.message, p.site())),
+        }
+    }
+}
+
+enum Built {
+    Ok(Assembler),
+    Err(String),
+    Panic(PanicInfo),
+}
+
+/// a fresh assembler: libraries added in `order`, then the kernel
+fn fresh(world: &World, built: &[MaslLibrary], order: &[usize]) -> Built {
+    match catch(|| -> Result<Assembler, String> {
+        let mut asm = Assembler::default();
+        for &i in order {
+            asm = asm.with_library(&built[i]).map_err(|e| e.to_string())?;
+        }
+        if let Some(k) = &world.kernel {
+            asm = asm.with_kernel(k).map_err(|e| e.to_string())?;
+        }
+        Ok(asm)
+    }) {
+        Ok(Ok(a)) => Built::Ok(a),
+        Ok(Err(e)) => Built::Err(e),
+        Err(p) => Built::Panic(p),
+    }
+}
+
+fn identity(n: usize) -> Vec<usize> {
+    (0..n).collect()
+}
+
+enum Comp {
+    Ok(Box<Program>),
+    Err(String),
+    Panic(PanicInfo),
+}
+
+impl Comp {
+    fn class(&self) -> &'static str {
+        match self {
+            Comp::Ok(_) => "ok",
+            Comp::Err(_) => "err",
+            Comp::Panic(_) => "panic",
+        }
+    }
+}
+
+fn compile(asm: &Assembler, src: &str) -> Comp {
+    match catch(|| -> Result<Program, String> {
+        let ast = ProgramAst::parse(src).map_err(|e| e.to_string())?;
+        asm.compile_ast(&ast).map_err(|e| e.to_string())
+    }) {
+        Ok(Ok(p)) => Comp::Ok(Box::new(p)),
+        Ok(Err(e)) => Comp::Err(e),
+        Err(p) => Comp::Panic(p),
+    }
+}
+
+/// hash of `src` compiled on a fresh instance (None if it does not compile)
+fn fresh_hash(world: &World, built: &[MaslLibrary], src: &str) -> Option<W> {
+    match fresh(world, built, &identity(built.len())) {
+        Built::Ok(a) => match compile(&a, src) {
+            Comp::Ok(p) => Some(to_w(p.hash())),
+            _ => None,
+        },
+        _ => None,
+    }
+}
+
+/// outcome of running a program (no trace is built: only the result matters here)
+enum Ex {
+    Ok(Vec<u64>),
+    Err(ExecutionError),
+    Panic(PanicInfo),
+}
+
+impl Ex {
+    fn class(&self) -> String {
+        match self {
+            Ex::Ok(_) => "ok".into(),
+            Ex::Err(e) => format!("err:{}", err_kind(e)),
+            Ex::Panic(p) => format!("panic:{}", p.site()),
+        }
+    }
+}
+
+fn execute(world: &World, prog: &Program) -> Ex {
+    let mut st = felts(&world.stack);
+    st.reverse();
+    let host = QuietHost::new(DefaultHost::new(MemAdviceProvider::default()));
+    match catch(|| {
+        let mut process = Process::new(prog.kernel().clone(), StackInputs::new(st), host, ExecutionOptions::default());
+        process.execute(prog)
+    }) {
+        Ok(Ok(o)) => Ex::Ok(o.stack().to_vec()),
+        Ok(Err(e)) => Ex::Err(e),
+        Err(p) => Ex::Panic(p),
+    }
+}
+
+// MAST WALK
+// ================================================================================================
+
+struct Walk {
+    /// table entries reachable from the root and from the procref'd roots
+    reached: BTreeSet<W>,
+    /// call targets found in the MAST (excluding dyn)
+    call_targets: BTreeSet<W>,
+    /// statically referenced targets absent from the table, with the registering kind
+    missing: BTreeMap<W, &'static str>,
+}
+
+fn walk(p: &Program, needed: &BTreeMap<W, String>) -> Walk {
+    let tbl = p.cb_table();
+    let mut w = Walk { reached: BTreeSet::new(), call_targets: BTreeSet::new(), missing: BTreeMap::new() };
+    let mut stack: Vec<&CodeBlock> = vec![p.root()];
+    for (r, kind) in needed {
+        match tbl.get(to_d(r)) {
+            Some(b) => {
+                if w.reached.insert(*r) {
+                    stack.push(b);
+                }
+            }
+            None => {
+                let k = match kind.as_str() {
+                    "call" => "call",
+                    "syscall" => "syscall",
+                    _ => "procref",
+                };
+                w.missing.insert(*r, k);
+            }
+        }
+    }
+    while let Some(b) = stack.pop() {
+        match b {
+            CodeBlock::Join(j) => {
+                stack.push(j.first());
+                stack.push(j.second());
+            }
+            CodeBlock::Split(s) => {
+                stack.push(s.on_true());
+                stack.push(s.on_false());
+            }
+            CodeBlock::Loop(l) => stack.push(l.body()),
+            CodeBlock::Call(c) => {
+                let h = c.fn_hash();
+                if h == Dyn::dyn_hash() {
+                    continue;
+                }
+                let hw = to_w(h);
+                w.call_targets.insert(hw);
+                match tbl.get(h) {
+                    Some(body) => {
+                        if w.reached.insert(hw) {
+                            stack.push(body);
+                        }
+                    }
+                    None => {
+                        w.missing.entry(hw).or_insert(if c.is_syscall() { "syscall" } else { "call" });
+                    }
+                }
+            }
+            _ => {}
+        }
+    }
+    w
+}
+
+// ONE STEP OF THE HISTORY MONITOR
+// ================================================================================================
+
+#[derive(Clone, Debug, Default)]
+struct SeqItem {
+    src: String,
+    /// root -> kind of the instruction which must have registered it
+    needed: BTreeMap<W, String>,
+    /// root -> enclosing registered targets through which it is referenced (None = program text)
+    parents: BTreeMap<W, BTreeSet<(Option<W>, String)>>,
+    /// root -> dyn consumers (bit 1 dynexec, bit 2 dyncall)
+    dynk: BTreeMap<W, u8>,
+    /// the generator meant this program to be valid
+    expect_ok: bool,
+    // coverage only (not serialised)
+    invs: Vec<Inv>,
+    /// library modules loaded into the instance's cache by compiling this program, and their roots
+    loads: BTreeSet<usize>,
+    load_roots: BTreeSet<W>,
+}
+
+impl SeqItem {
+    fn to_json(&self) -> Value {
+        json!({
+            "src": self.src,
+            "needed": self.needed.iter().map(|(w, k)| {
+                let ps: Vec<Value> = self.parents.get(w).map(|s| s.iter().map(|(p, k)| json!([p.map(|p| w_str(&p)).unwrap_or_else(|| "program".into()), k])).collect()).unwrap_or_default();
+                json!([w_str(w), k, ps])
+            }).collect::<Vec<_>>(),
+            "dyn": self.dynk.iter().map(|(w, k)| json!([w_str(w), k])).collect::<Vec<_>>(),
+            "expect_ok": self.expect_ok,
+        })
+    }
+    fn from_json(v: &Value) -> Option<SeqItem> {
+        let mut it = SeqItem { src: v.get("src")?.as_str()?.to_string(), ..Default::default() };
+        for e in v.get("needed").and_then(|x| x.as_array()).cloned().unwrap_or_default() {
+            if let (Some(w), Some(k)) = (e[0].as_str().and_then(w_parse), e[1].as_str()) {
+                it.needed.insert(w, k.to_string());
+                if let Some(ps) = e.get(2).and_then(|x| x.as_array()) {
+                    it.parents.insert(w, ps.iter().map(|p| (p[0].as_str().and_then(w_parse), p[1].as_str().unwrap_or("procref").to_string())).collect());
+                }
+            }
+        }
+        for e in v.get("dyn").and_then(|x| x.as_array()).cloned().unwrap_or_default() {
+            if let (Some(w), Some(k)) = (e[0].as_str().and_then(w_parse), e[1].as_u64()) {
+                it.dynk.insert(w, k as u8);
+            }
+        }
+        it.expect_ok = v.get("expect_ok").and_then(|b| b.as_bool()).unwrap_or(true);
+        Some(it)
+    }
+}
+
+fn history_witness(world: &World, seq: &[&SeqItem], index: usize) -> Value {
+    let mut v = world.to_json();
+    let o = v.as_object_mut().unwrap();
+    o.insert("kind".into(), json!("history"));
+    o.insert("sequence".into(), json!(seq.iter().take(index + 1).map(|s| s.to_json()).collect::<Vec<_>>()));
+    o.insert("index".into(), json!(index));
+    v
+}
+
+fn exec_summary(o: &Ex) -> String {
+    match o {
+        Ex::Ok(_) => "ok".into(),
+        Ex::Err(e) => format!("err:{}", truncate(&e.to_string(), 160)),
+        Ex::Panic(p) => format!("panic:{}", p.site()),
+    }
+}
+
+/// Which digest a run-time "code block not found" error names (None for other outcomes).
+fn missing_at_runtime(o: &Ex) -> Option<(W, bool)> {
+    match o {
+        Ex::Err(ExecutionError::CodeBlockNotFound(d)) => Some((to_w(*d), false)),
+        Ex::Err(ExecutionError::DynamicCodeBlockNotFound(d)) => Some((to_w(*d), true)),
+        _ => None,
+    }
+}
+
+/// Compiles `item` on the warm instance and on a fresh one, compares, executes both.
+/// `universe_roots`: every procedure root of the universe (to compare table membership).
+fn check_step(
+    world: &World,
+    built: &[MaslLibrary],
+    warm: &Assembler,
+    item: &SeqItem,
+    universe_roots: &BTreeSet<W>,
+    wit: &dyn Fn() -> Value,
+    rep: &mut Report,
+) {
+    let warm_out = compile(warm, &item.src);
+    let cold_asm = match fresh(world, built, &identity(built.len())) {
+        Built::Ok(a) => a,
+        Built::Err(e) => {
+            rep.count("harness", "fresh-assembler-err");
+            rep.count("fresh_assembler_err", &truncate(&e, 100));
+            return;
+        }
+        Built::Panic(p) => {
+            rep.violation(format!("panic/assembler-setup/{}", p.site()), format!("building the assembler panicked: {}", p.message), wit());
+            return;
+        }
+    };
+    let cold_out = compile(&cold_asm, &item.src);
+    rep.count("compile_outcome", &format!("cold:{}/warm:{}", cold_out.class(), warm_out.class()));
+    for (which, o) in [("cold", &cold_out), ("warm", &warm_out)] {
+        if let Comp::Panic(p) = o {
+            rep.violation(
+                format!("panic/compile/{}", p.site()),
+                format!("compiling a generated program panicked ({which} instance): {} at {}", p.message, p.location),
+                wit(),
+            );
+        }
+    }
+    let is_mast_root_call = item.src.contains("call.0x");
+    let (wp, cp) = match (&warm_out, &cold_out) {
+        (Comp::Ok(w), Comp::Ok(c)) => (w, c),
+        (Comp::Err(_), Comp::Err(e)) => {
+            if item.expect_ok {
+                rep.count("harness", "generated-program-rejected");
+                rep.count("cold_err", &truncate(e, 90));
+            }
+            return;
+        }
+        (Comp::Panic(_), _) | (_, Comp::Panic(_)) => return,
+        (w, c) => {
+            let sig = if is_mast_root_call { "history-dependence/outcome/call-mast-root" } else { "history-dependence/outcome" };
+            let txt = |o: &Comp| match o {
+                Comp::Ok(_) => "Ok".to_string(),
+                Comp::Err(e) => format!("Err({})", truncate(e, 160)),
+                Comp::Panic(p) => format!("panic at {}", p.site()),
+            };
+            rep.violation(sig, format!("same source: fresh instance gives {}, used instance gives {}", txt(c), txt(w)), wit());
+            return;
+        }
+    };
+
+    // ---- compile-time comparison
+    let mut differs = false;
+    if wp.hash() != cp.hash() {
+        differs = true;
+        rep.violation("history-dependence/program-hash", format!("program hash differs: fresh {} vs used {}", w_str(&to_w(cp.hash())), w_str(&to_w(wp.hash()))), wit());
+    } else if format!("{}", wp) != format!("{}", cp) {
+        differs = true;
+        rep.violation("history-dependence/mast-text", "printed MAST differs between fresh and used instance", wit());
+    }
+    if wp.kernel() != cp.kernel() {
+        differs = true;
+        rep.violation("history-dependence/kernel", "kernel differs between fresh and used instance", wit());
+    }
+    let ww = walk(wp, &item.needed);
+    let cw = walk(cp, &item.needed);
+    // model consistency: every call target in the MAST was predicted by the model
+    if !item.needed.is_empty() || !cw.call_targets.is_empty() {
+        let gap = cw.call_targets.iter().any(|t| !item.needed.contains_key(t))
+            || (cw.missing.is_empty() && item.needed.iter().any(|(r, k)| k != "procref" && !cw.call_targets.contains(r)));
+        rep.count("model_consistency", if gap { "gap" } else { "ok" });
+    }
+    let mut tbl_diff = vec![];
+    let all: BTreeSet<W> = universe_roots
+        .iter()
+        .chain(item.needed.keys())
+        .chain(item.dynk.keys())
+        .chain(ww.call_targets.iter())
+        .chain(cw.call_targets.iter())
+        .copied()
+        .collect();
+    for r in &all {
+        let (a, b) = (wp.cb_table().has(to_d(r)), cp.cb_table().has(to_d(r)));
+        if a != b {
+            tbl_diff.push(format!("{} {}", if b { "missing-on-used-instance" } else { "extra-on-used-instance" }, w_str(r)));
+        }
+    }
+    if tbl_diff.is_empty() && (ww.reached != cw.reached || format!("{:?}", wp.cb_table()) != format!("{:?}", cp.cb_table())) {
+        tbl_diff.push("table content differs".into());
+    }
+    if !tbl_diff.is_empty() {
+        differs = true;
+        rep.violation(
+            "history-dependence/cb-table",
+            format!("code block table differs between fresh and used instance: {}", truncate(&tbl_diff.join("; "), 300)),
+            wit(),
+        );
+    }
+
+    // ---- execution
+    let ce = execute(world, cp);
+    let we = execute(world, wp);
+    rep.count("exec_outcome", &format!("cold:{}", ce.class()));
+    rep.count("exec_outcome", &format!("warm:{}", we.class()));
+    if let Ex::Ok(t) = &ce {
+        let out = t.iter().take(16).copied().collect::<Vec<_>>();
+        let mut exp = world.stack.clone();
+        exp.resize(16, 0);
+        rep.count("stack_neutral", if out == exp[..16] { "yes" } else { "no" });
+    }
+
+    // ---- statically referenced targets must be present (static check, run-time confirmation)
+    let mut cold_missing = BTreeSet::new();
+    for (state, w, e) in [("cold", &cw, &ce), ("warm", &ww, &we)] {
+        let mut missing = w.missing.clone();
+        if let Some((d, dynamic)) = missing_at_runtime(e) {
+            let is_static = item.needed.contains_key(&d) || !dynamic;
+            if is_static {
+                missing.entry(d).or_insert(match item.needed.get(&d).map(|s| s.as_str()) {
+                    Some("call") => "call",
+                    Some("syscall") => "syscall",
+                    Some(_) => "procref",
+                    None => "call",
+                });
+            } else {
+                rep.count("legit_dynamic_miss", state);
+            }
+        }
+        let all_missing: BTreeSet<W> = missing.keys().copied().collect();
+        for (d, kind) in &missing {
+            // a target only referenced from inside other missing targets is a consequence
+            // ... and the kind is that of the registrations which are not consequences
+            let mut kind: &str = kind;
+            if let Some(ps) = item.parents.get(d) {
+                let live: Vec<&str> = ps.iter().filter(|(p, _)| !matches!(p, Some(p) if all_missing.contains(p))).map(|(_, k)| k.as_str()).collect();
+                if !ps.is_empty() && live.is_empty() {
+                    rep.count("missing_consequence", state);
+                    continue;
+                }
+                if !live.is_empty() {
+                    kind = if live.contains(&"call") { "call" } else if live.contains(&"syscall") { "syscall" } else { "procref" };
+                }
+            }
+            if state == "cold" {
+                cold_missing.insert(*d);
+            } else if cold_missing.contains(d) {
+                continue; // same observation as on the fresh instance
+            }
+            let how = match missing_at_runtime(e) {
+                Some((rd, _)) if rd == *d => format!("execution fails: {}", exec_summary(e)),
+                _ => format!("found statically (execution: {})", exec_summary(e)),
+            };
+            let consumers = match item.dynk.get(d).copied().unwrap_or(0) {
+                1 => " [consumed by dynexec]",
+                2 => " [consumed by dyncall]",
+                3 => " [consumed by dynexec and dyncall]",
+                _ => "",
+            };
+            rep.violation(
+                format!("missing-code-block/{kind}/{state}"),
+                format!("target {} registered by `{kind}` is not in the code block table of the program compiled on a {} instance{}; {}", w_str(d), if state == "cold" { "fresh" } else { "used" }, consumers, how),
+                wit(),
+            );
+        }
+    }
+
+    // ---- run-time comparison (only reported when the compile-time comparison saw nothing)
+    let same_exec = match (&ce, &we) {
+        (Ex::Ok(a), Ex::Ok(b)) => a == b,
+        (Ex::Err(a), Ex::Err(b)) => err_kind(a) == err_kind(b),
+        (Ex::Panic(_), Ex::Panic(_)) => true,
+        _ => false,
+    };
+    if !same_exec && !differs {
+        rep.violation(
+            "history-dependence/execution",
+            format!("execution differs: fresh {} vs used {}", exec_summary(&ce), exec_summary(&we)),
+            wit(),
+        );
+    }
+    for (st, e) in [("cold", &ce), ("warm", &we)] {
+        match e {
+            Ex::Err(x) => rep.count("exec_errors", &format!("{st}:{}", err_kind(x))),
+            Ex::Panic(p) => rep.count("exec_panics", &format!("{st}:{}", p.site())),
+            _ => {}
+        }
+    }
+}
+
+/// Runs a whole sequence on one warm instance. `only`: check only this index (replay / shrink).
+fn run_sequence(
+    world: &World,
+    built: &[MaslLibrary],
+    seq: &[&SeqItem],
+    only: Option<usize>,
+    universe_roots: &BTreeSet<W>,
+    rep: &mut Report,
+) {
+    let warm = match fresh(world, built, &identity(built.len())) {
+        Built::Ok(a) => a,
+        Built::Err(e) => {
+            rep.count("harness", "fresh-assembler-err");
+            rep.count("fresh_assembler_err", &truncate(&e, 100));
+            return;
+        }
+        Built::Panic(p) => {
+            rep.violation(format!("panic/assembler-setup/{}", p.site()), format!("building the assembler panicked: {}", p.message), history_witness(world, seq, 0));
+            return;
+        }
+    };
+    for (i, item) in seq.iter().enumerate() {
+        match only {
+            Some(o) if o != i => {
+                let _ = compile(&warm, &item.src);
+            }
+            _ => {
+                let wit = || history_witness(world, seq, i);
+                check_step(world, built, &warm, item, universe_roots, &wit, rep);
+            }
+        }
+    }
+}
+
+/// After a violation at `idx`: look for a shorter history (just the program, or one predecessor)
+/// showing the same signature; the report keeps the smallest witness per signature.
+fn shrink_history(
+    world: &World,
+    built: &[MaslLibrary],
+    seq: &[&SeqItem],
+    idx: usize,
+    sigs: &[String],
+    universe_roots: &BTreeSet<W>,
+    rep: &mut Report,
+) {
+    let mut cands: Vec<Vec<&SeqItem>> = vec![vec![seq[idx]]];
+    for j in 0..idx {
+        cands.push(vec![seq[j], seq[idx]]);
+    }
+    let mut open: BTreeSet<&String> = sigs.iter().collect();
+    for c in cands {
+        if open.is_empty() {
+            break;
+        }
+        let mut tmp = Report::new();
+        run_sequence(world, built, &c, Some(c.len() - 1), universe_roots, &mut tmp);
+        for v in tmp.violations {
+            if open.remove(&v.sig) {
+                // does not change the count much; it only provides a smaller witness
+                rep.violation(v.sig, v.what, v.replay);
+            }
+        }
+    }
+}
+
+// GENERATORS
+// ================================================================================================
+
+/// what a generated body may refer to
+#[derive(Clone, Debug, Default)]
+struct Env {
+    normals: Vec<Tgt>,
+    pushers: Vec<Tgt>,
+    ksys: Vec<String>,
+    lits: Vec<W>,
+    locals: u16,
+}
+
+fn gen_plain(rng: &mut Rng8, locals: u16) -> String {
+    let v = rng.gen_range(2..1000u64);
+    match rng.gen_range(0..10) {
+        0 => format!("push.{v} drop"),
+        1 => format!("push.{v} push.{} add drop", rng.gen_range(2..99u64)),
+        2 => "swap swap".into(),
+        3 => "dup drop".into(),
+        4 => "padw dropw".into(),
+        5 => format!("push.{v} neg drop"),
+        6 => format!("push.{} u32split drop drop", rng.gen::<u64>() % P),
+        7 => format!("push.{v}.{} mul drop", rng.gen_range(2..99u64)),
+        8 if locals > 0 => {
+            let i = rng.gen_range(0..locals);
+            format!("push.{v} loc_store.{i} loc_load.{i} drop")
+        }
+        9 if locals > 0 => format!("locaddr.{} drop", rng.gen_range(0..locals)),
+        _ => format!("push.{v} push.{v} eq drop"),
+    }
+}
+
+fn gen_dk(rng: &mut Rng8) -> Dk {
+    match rng.gen_range(0..5) {
+        0 => Dk::No,
+        1 | 2 => Dk::Exec,
+        _ => Dk::Call,
+    }
+}
+
+fn gen_item(rng: &mut Rng8, env: &Env, depth: u32) -> Item {
+    for _ in 0..20 {
+        match rng.gen_range(0..18) {
+            0..=2 => return Item::Plain(gen_plain(rng, env.locals)),
+            3 | 4 if !env.normals.is_empty() => return Item::Exec(env.normals.choose(rng).unwrap().clone()),
+            5 | 6 if !env.normals.is_empty() => return Item::Call(env.normals.choose(rng).unwrap().clone()),
+            7 | 8 if !env.ksys.is_empty() => return Item::Sys(env.ksys.choose(rng).unwrap().clone()),
+            9..=11 if !env.normals.is_empty() => return Item::Pref(env.normals.choose(rng).unwrap().clone(), gen_dk(rng)),
+            12 | 13 if !env.pushers.is_empty() => return Item::Pusher(env.pushers.choose(rng).unwrap().clone(), gen_dk(rng)),
+            14 if !env.lits.is_empty() => {
+                // mostly without a consumer: a dyn on a never-registered root legitimately fails
+                let d = if rng.gen_range(0..6) == 0 { gen_dk(rng) } else { Dk::No };
+                return Item::Lit(*env.lits.choose(rng).unwrap(), d);
+            }
+            15 if depth < 2 => {
+                let a = gen_items(rng, env, depth + 1, 1, 2);
+                let b = if rng.gen_bool(0.6) { gen_items(rng, env, depth + 1, 1, 2) } else { vec![] };
+                return Item::If(rng.gen_bool(0.5), a, b);
+            }
+            16 if depth < 2 => return Item::Rep(rng.gen_range(1..4), gen_items(rng, env, depth + 1, 1, 2)),
+            17 if depth < 2 => return Item::While(rng.gen_bool(0.5), gen_items(rng, env, depth + 1, 1, 2)),
+            _ => {}
+        }
+    }
+    Item::Plain(gen_plain(rng, env.locals))
+}
+
+fn gen_items(rng: &mut Rng8, env: &Env, depth: u32, lo: usize, hi: usize) -> Vec<Item> {
+    let n = rng.gen_range(lo..=hi);
+    (0..n).map(|_| gen_item(rng, env, depth)).collect()
+}
+
+const ALIASES: [&str; 6] = ["zz", "q", "alpha", "m_x", "lib2", "u64"];
+
+fn gen_imports(rng: &mut Rng8, avail: &[usize], lo: usize, hi: usize) -> Vec<(usize, Option<String>)> {
+    if avail.is_empty() {
+        return vec![];
+    }
+    let n = rng.gen_range(lo..=hi).min(avail.len());
+    let mut picks: Vec<usize> = avail.to_vec();
+    picks.shuffle(rng);
+    picks.truncate(n);
+    picks
+        .into_iter()
+        .enumerate()
+        .map(|(k, i)| (i, if rng.gen_bool(0.4) { Some(format!("{}{}", ALIASES[rng.gen_range(0..ALIASES.len())], k)) } else { None }))
+        .collect()
+}
+
+/// procedures of imported modules a body of module `m` may refer to
+fn env_for(u: &Universe, m: &Module, self_idx: usize, prog: Option<&Module>) -> Env {
+    let mut env = Env::default();
+    for (i, _) in &m.imports {
+        for p in &u.mods[*i].procs {
+            if !p.export {
+                continue;
+            }
+            let t = Tgt { m: *i, name: p.name.clone() };
+            if u.is_pusher(&t, prog) {
+                env.pushers.push(t);
+            } else {
+                env.normals.push(t);
+            }
+        }
+    }
+    if let Some(k) = &u.kernel {
+        if self_idx != PROG - 1 {
+            env.ksys = k.procs.iter().filter(|p| p.export).map(|p| p.name.clone()).collect();
+        }
+    }
+    // literal roots: roots of normal procedures known so far
+    for ((mi, name), w) in &u.roots {
+        let t = Tgt { m: *mi, name: name.clone() };
+        if *mi < u.mods.len() && !u.is_pusher(&t, None) {
+            env.lits.push(*w);
+        }
+    }
+    env
+}
+
+fn gen_kernel(rng: &mut Rng8) -> Module {
+    let mut k = Module { path: "#kernel".into(), ..Default::default() };
+    let n = rng.gen_range(1..=3);
+    let mut locals_env = Env::default();
+    for i in 0..n {
+        let internal = i == 0 && n > 1 && rng.gen_bool(0.5);
+        let locals = if rng.gen_bool(0.3) { rng.gen_range(1..3) } else { 0 };
+        locals_env.locals = locals;
+        let mut items = vec![Item::Plain(gen_plain(rng, locals))];
+        if rng.gen_bool(0.5) {
+            items.push(Item::Plain("padw caller dropw".into()));
+        }
+        if !locals_env.normals.is_empty() && rng.gen_bool(0.5) {
+            items.push(Item::Exec(locals_env.normals.choose(rng).unwrap().clone()));
+        }
+        let name = format!("k{i}");
+        k.procs.push(Proc { name: name.clone(), export: !internal, locals, kind: PK::Normal(items) });
+        locals_env.normals.push(Tgt { m: PROG - 1, name });
+    }
+    k
+}
+
+/// computes the MAST roots of all procedures of module `idx` (module must be rendered in `world`)
+fn compute_roots(u: &mut Universe, idx: usize, world: &World, built: &[MaslLibrary]) -> bool {
+    let m = u.mods[idx].clone();
+    let mut ok = true;
+    for p in &m.procs {
+        let src = match &p.kind {
+            PK::ReExp(_) => format!("use.{}->zq9\nbegin exec.zq9::{} end", m.path, p.name),
+            _ => u.render_root_probe(&m, idx, &p.name),
+        };
+        match fresh_hash(world, built, &src) {
+            Some(w) => {
+                u.roots.insert((idx, p.name.clone()), w);
+            }
+            None => ok = false,
+        }
+    }
+    ok
+}
+
+fn world_of(u: &Universe, upto: usize, stack: &[u64]) -> World {
+    World { libs: u.lib_srcs(upto), kernel: u.kernel_src(), stack: stack.to_vec() }
+}
+
+/// Generates a universe: 2–4 libraries, 3–7 modules forming a DAG, optional kernel.
+fn gen_universe(rng: &mut Rng8, rep: &mut Report) -> Option<Universe> {
+    let mut u = Universe::default();
+    let n_libs = rng.gen_range(2..=4usize);
+    u.ns = ["la", "lb", "lc", "ld"][..n_libs].iter().map(|s| s.to_string()).collect();
+    let n_mods = rng.gen_range(n_libs.max(3)..=7usize);
+    if rng.gen_bool(0.7) {
+        u.kernel = Some(gen_kernel(rng));
+        // kernel roots: `begin syscall.k end` is a single SYSCALL block whose target is the root
+        let w = World { libs: vec![], kernel: u.kernel_src(), stack: vec![] };
+        for p in u.kernel.clone().unwrap().procs.iter().filter(|p| p.export) {
+            let r = match fresh(&w, &[], &[]) {
+                Built::Ok(a) => match compile(&a, &format!("begin syscall.{} end", p.name)) {
+                    Comp::Ok(prog) => match prog.root() {
+                        CodeBlock::Call(c) => Some(to_w(c.fn_hash())),
+                        _ => None,
+                    },
+                    _ => None,
+                },
+                _ => None,
+            };
+            match r {
+                Some(r) => {
+                    u.kroots.insert(p.name.clone(), r);
+                }
+                None => {
+                    rep.count("harness", "kernel-root-unavailable");
+                    return None;
+                }
+            }
+        }
+    }
+    // pair plans: (module of the literal pusher `a`, module of the procref pusher `b`)
+    let mut plans: Vec<(usize, usize)> = vec![];
+    for _ in 0..rng.gen_range(1..=3) {
+        plans.push((rng.gen_range(1..n_mods), rng.gen_range(1..n_mods)));
+    }
+    // a pool of bodies shared verbatim by procedures of different modules (equal MAST roots)
+    let shared: Vec<String> = (0..3).map(|_| format!("{} {}", gen_plain(rng, 0), gen_plain(rng, 0))).collect();
+
+    let mut pair_no = 0;
+    for idx in 0..n_mods {
+        let lib = if idx < n_libs { idx } else { rng.gen_range(0..n_libs) };
+        let path = if rng.gen_bool(0.2) { format!("{}::sub::m{idx}", u.ns[lib]) } else { format!("{}::m{idx}", u.ns[lib]) };
+        let avail: Vec<usize> = (0..idx).collect();
+        let mut m = Module { path, lib, imports: gen_imports(rng, &avail, 1, 3), ..Default::default() };
+        let env0 = env_for(&u, &m, idx, None);
+
+        // re-exports
+        if !env0.normals.is_empty() || !env0.pushers.is_empty() {
+            for r in 0..rng.gen_range(0..=2) {
+                let all: Vec<&Tgt> = env0.normals.iter().chain(env0.pushers.iter()).collect();
+                let t = (*all.choose(rng).unwrap()).clone();
+                let name = if rng.gen_bool(0.5) { t.name.clone() } else { format!("r{idx}_{r}") };
+                if m.procs.iter().any(|p| p.name == name) {
+                    continue;
+                }
+                m.procs.push(Proc { name, export: true, locals: 0, kind: PK::ReExp(t) });
+            }
+        }
+        // normal procedures
+        let mut env = env0.clone();
+        let n_procs = rng.gen_range(2..=4);
+        for i in 0..n_procs {
+            let is_shared = rng.gen_bool(0.25);
+            let locals = if !is_shared && rng.gen_bool(0.25) { rng.gen_range(1..4) } else { 0 };
+            env.locals = locals;
+            let items = if is_shared {
+                vec![Item::Plain(shared.choose(rng).unwrap().clone())]
+            } else {
+                gen_items(rng, &env, 0, 1, 3)
+            };
+            let name = format!("p{idx}_{i}");
+            let export = i == n_procs - 1 || rng.gen_bool(0.7);
+            m.procs.push(Proc { name: name.clone(), export, locals, kind: PK::Normal(items) });
+            env.normals.push(Tgt { m: idx, name });
+        }
+        // pushers of the pair plans
+        for (am, bm) in plans.clone() {
+            if am != idx && bm != idx {
+                continue;
+            }
+            // foo: an exported normal procedure of an imported module
+            let foos: Vec<&Tgt> = env0.normals.iter().collect();
+            if foos.is_empty() {
+                continue;
+            }
+            let foo = (*foos.choose(rng).unwrap()).clone();
+            let Some(root) = u.roots.get(&(foo.m, foo.name.clone())).copied() else { continue };
+            let mut add = vec![];
+            if am == idx {
+                add.push(Proc { name: format!("a{idx}_{pair_no}"), export: true, locals: 0, kind: PK::PushLit(root) });
+            }
+            if bm == idx {
+                add.push(Proc { name: format!("b{idx}_{pair_no}"), export: true, locals: 0, kind: PK::PushRef(foo.clone()) });
+            }
+            if add.len() == 2 && rng.gen_bool(0.5) {
+                add.swap(0, 1);
+            }
+            for p in add {
+                let t = Tgt { m: idx, name: p.name.clone() };
+                m.procs.push(p);
+                env.pushers.push(t.clone());
+                if rng.gen_bool(0.3) {
+                    let wname = format!("w{idx}_{pair_no}_{}", m.procs.len());
+                    m.procs.push(Proc { name: wname.clone(), export: true, locals: 0, kind: PK::PushWrap(t) });
+                    env.pushers.push(Tgt { m: idx, name: wname });
+                }
+            }
+            pair_no += 1;
+            // a normal procedure using the pushers of this module
+            if rng.gen_bool(0.5) {
+                let t = env.pushers.last().unwrap().clone();
+                let name = format!("u{idx}_{pair_no}");
+                m.procs.push(Proc { name: name.clone(), export: true, locals: 0, kind: PK::Normal(vec![Item::Pusher(t, gen_dk(rng)), Item::Plain(gen_plain(rng, 0))]) });
+                env.normals.push(Tgt { m: idx, name });
+            }
+        }
+        u.mods.push(m);
+        let world = world_of(&u, idx + 1, &[]);
+        let built = match world.build() {
+            Ok(b) => b,
+            Err(e) => {
+                rep.count("harness", "library-build-failed");
+                rep.count("library_build_err", &truncate(&e, 100));
+                return None;
+            }
+        };
+        if !compute_roots(&mut u, idx, &world, &built) {
+            rep.count("harness", "root-unavailable");
+            return None;
+        }
+    }
+    Some(u)
+}
+
+/// Generates a program over the universe; returns the model and its local procedure roots.
+fn gen_program(rng: &mut Rng8, u: &Universe) -> Module {
+    let avail: Vec<usize> = (0..u.mods.len()).collect();
+    let mut m = Module { path: "#exec".into(), imports: gen_imports(rng, &avail, 1, 3), ..Default::default() };
+    let mut env = env_for(u, &m, PROG, None);
+    for i in 0..rng.gen_range(0..=2) {
+        let name = format!("loc{i}");
+        match rng.gen_range(0..6) {
+            0 if !env.normals.is_empty() => {
+                let f = env.normals.choose(rng).unwrap().clone();
+                m.procs.push(Proc { name: name.clone(), export: false, locals: 0, kind: PK::PushRef(f) });
+                env.pushers.push(Tgt { m: PROG, name });
+            }
+            1 if !env.lits.is_empty() => {
+                m.procs.push(Proc { name: name.clone(), export: false, locals: 0, kind: PK::PushLit(*env.lits.choose(rng).unwrap()) });
+                env.pushers.push(Tgt { m: PROG, name });
+            }
+            _ => {
+                let locals = if rng.gen_bool(0.3) { rng.gen_range(1..3) } else { 0 };
+                env.locals = locals;
+                let items = gen_items(rng, &env, 0, 1, 3);
+                m.procs.push(Proc { name: name.clone(), export: false, locals, kind: PK::Normal(items) });
+                env.normals.push(Tgt { m: PROG, name });
+            }
+        }
+    }
+    env.locals = 0;
+    m.main = Some(gen_items(rng, &env, 0, 1, 5));
+    m
+}
+
+/// A program exercising one pusher (the same-root pairs), biased to appear in every universe.
+fn gen_pusher_program(rng: &mut Rng8, u: &Universe) -> Option<Module> {
+    let mut all = vec![];
+    for (i, md) in u.mods.iter().enumerate() {
+        for p in &md.procs {
+            let t = Tgt { m: i, name: p.name.clone() };
+            if p.export && u.is_pusher(&t, None) {
+                all.push(t);
+            }
+        }
+    }
+    let t = all.choose(rng)?.clone();
+    let al = if rng.gen_bool(0.5) { Some("px".to_string()) } else { None };
+    let mut m = Module { path: "#exec".into(), imports: vec![(t.m, al)], ..Default::default() };
+    let mut main = vec![Item::Pusher(t, gen_dk(rng))];
+    if rng.gen_bool(0.3) {
+        main.insert(0, Item::Plain(gen_plain(rng, 0)));
+    }
+    m.main = Some(main);
+    Some(m)
+}
+
+fn seq_item(u: &Universe, prog: &Module, world: &World, built: &[MaslLibrary], rep: &mut Report) -> Option<SeqItem> {
+    // roots of program-local procedures
+    let mut proots = BTreeMap::new();
+    for p in &prog.procs {
+        let src = u.render_root_probe(prog, PROG, &p.name);
+        match fresh_hash(world, built, &src) {
+            Some(w) => {
+                proots.insert(p.name.clone(), w);
+            }
+            None => {
+                rep.count("harness", "local-root-unavailable");
+                return None;
+            }
+        }
+    }
+    let n = u.needs_of_program(prog, &proots);
+    if n.unknown_root {
+        rep.count("harness", "unknown-root-in-model");
+        return None;
+    }
+    let loads = u.load_closure(prog);
+    let load_roots = u.roots.iter().filter(|((m, _), _)| loads.contains(m)).map(|(_, w)| *w).collect();
+    Some(SeqItem {
+        src: u.render(prog, PROG),
+        needed: n.set.iter().map(|(w, k)| (*w, k.0.to_string())).collect(),
+        parents: n.set.iter().map(|(w, k)| (*w, k.1.iter().map(|(p, k)| (*p, k.to_string())).collect())).collect(),
+        dynk: n.dynk.clone(),
+        expect_ok: true,
+        invs: n.invs,
+        loads,
+        load_roots,
+    })
+}
+
+// HISTORY DRIVER
+// ================================================================================================
+
+const KINDS: [&str; 6] = ["exec", "call", "syscall", "procref", "dynexec", "dyncall"];
+
+fn kinds_sig(invs: &[Inv]) -> String {
+    let s: BTreeSet<String> = invs.iter().map(|i| format!("{}/{}", i.kind, i.loc)).collect();
+    s.into_iter().collect::<Vec<_>>().join(",")
+}
+
+/// cache-state class of one invocation on the warm instance
+fn cache_class(inv: &Inv, loaded: &BTreeSet<usize>, cached_roots: &BTreeSet<W>) -> &'static str {
+    match inv.tm {
+        Some(m) if loaded.contains(&m) => "warm-same-module",
+        _ => match inv.root {
+            Some(r) if cached_roots.contains(&r) => "warm-different-module-equal-root",
+            _ => "warm-uncached",
+        },
+    }
+}
+
+fn history_for_universe(rng: &mut Rng8, u: &Universe, n_seqs: usize, rep: &mut Report) {
+    let stack: Vec<u64> = (0..rng.gen_range(0..=16)).map(|_| crate::util::biased_felt(rng)).collect();
+    let world = world_of(u, u.mods.len(), &stack);
+    let built = match world.build() {
+        Ok(b) => b,
+        Err(_) => {
+            rep.count("harness", "library-build-failed");
+            return;
+        }
+    };
+    let universe_roots: BTreeSet<W> = u.roots.values().chain(u.kroots.values()).copied().collect();
+    rep.count("universe", &format!("libs={} mods={} kernel={}", u.ns.len(), u.mods.len(), u.kernel.is_some()));
+
+    // program pool
+    let mut pool: Vec<SeqItem> = vec![];
+    for k in 0..rng.gen_range(5..=8) {
+        let prog = if k < 3 { gen_pusher_program(rng, u).unwrap_or_else(|| gen_program(rng, u)) } else { gen_program(rng, u) };
+        if let Some(mut it) = seq_item(u, &prog, &world, &built, rep) {
+            // a history element that fails to compile: must fail on both instances
+            if rng.gen_range(0..12) == 0 {
+                if let Some((i, _)) = prog.imports.first() {
+                    let al = u.qual(&prog, PROG, &Tgt { m: *i, name: "nope_zz".into() });
+                    it.src = it.src.replacen("begin\n", &format!("begin\n    exec.{al}\n"), 1);
+                    it.expect_ok = false;
+                }
+            }
+            pool.push(it);
+        }
+    }
+    // undocumented `call.<mast root>`: depends on what is cached (own signature)
+    if rng.gen_range(0..8) == 0 {
+        let normal: Vec<&W> = u.roots.iter().filter(|((m, n), _)| !u.is_pusher(&Tgt { m: *m, name: n.clone() }, None)).map(|(_, w)| w).collect();
+        if let Some(w) = normal.choose(rng) {
+            let mut needed = BTreeMap::new();
+            needed.insert(**w, "call".to_string());
+            pool.push(SeqItem { src: format!("begin call.{} end", to_d(w).to_hex()), needed, expect_ok: false, ..Default::default() });
+        }
+    }
+    if pool.is_empty() {
+        return;
+    }
+    if rep.samples.len() < 3 {
+        rep.sample(json!({"kind": "history", "libs": world.to_json()["libs"], "kernel": world.kernel, "program": pool[0].src}));
+    }
+
+    // re-export: same root as the original; call through a re-export needs the same table entry
+    for (i, md) in u.mods.iter().enumerate() {
+        for p in &md.procs {
+            if let PK::ReExp(t) = &p.kind {
+                let orig = u.resolve(t, None);
+                let (a, b) = (u.roots.get(&(i, p.name.clone())), u.roots.get(&(orig.m, orig.name.clone())));
+                rep.eval("re-export|exec");
+                rep.count("re_export", "exec");
+                let via = format!("use.{}->zq9\nbegin exec.zq9::{} end", md.path, p.name);
+                let direct = format!("use.{}->zq9\nbegin exec.zq9::{} end", u.mods[orig.m].path, orig.name);
+                if a != b {
+                    let mut w = world.to_json();
+                    w["kind"] = json!("reexport");
+                    w["via"] = json!(via);
+                    w["direct"] = json!(direct);
+                    rep.violation("re-export/root-mismatch/exec", format!("{}::{} re-exports {}::{} but compiles to a different MAST root", md.path, p.name, u.mods[orig.m].path, orig.name), w);
+                }
+                if !u.is_pusher(t, None) {
+                    let via = via.replace("exec.", "call.");
+                    let direct = direct.replace("exec.", "call.");
+                    check_reexport_call(&world, &built, &via, &direct, rep);
+                }
+            }
+        }
+    }
+
+    // library order
+    order_check(rng, &world, &built, &pool, rep);
+
+    // sequences
+    let kroots: BTreeSet<W> = u.kroots.values().copied().collect();
+    for _ in 0..n_seqs {
+        let len = rng.gen_range(3..=9);
+        let idxs: Vec<usize> = (0..len).map(|_| rng.gen_range(0..pool.len())).collect();
+        let seq: Vec<&SeqItem> = idxs.iter().map(|&i| &pool[i]).collect();
+        drive_sequence(&world, &built, &seq, &universe_roots, &kroots, rep);
+    }
+}
+
+/// One warm instance, one sequence: coverage bookkeeping + check of every step + shrinking.
+fn drive_sequence(
+    world: &World,
+    built: &[MaslLibrary],
+    seq: &[&SeqItem],
+    universe_roots: &BTreeSet<W>,
+    kroots: &BTreeSet<W>,
+    rep: &mut Report,
+) {
+    let warm = match fresh(world, built, &identity(built.len())) {
+        Built::Ok(a) => a,
+        Built::Err(e) => {
+            rep.count("harness", "fresh-assembler-err");
+            rep.count("fresh_assembler_err", &truncate(&e, 100));
+            return;
+        }
+        Built::Panic(p) => {
+            rep.violation(format!("panic/assembler-setup/{}", p.site()), format!("building the assembler panicked: {}", p.message), history_witness(world, seq, 0));
+            return;
+        }
+    };
+    rep.count("sequence_len", &seq.len().to_string());
+    let mut loaded: BTreeSet<usize> = BTreeSet::new();
+    let mut cached_roots: BTreeSet<W> = kroots.clone();
+    let mut shrunk: BTreeSet<String> = BTreeSet::new();
+    for (i, item) in seq.iter().enumerate() {
+        // coverage
+        let ks = kinds_sig(&item.invs);
+        let mut classes = BTreeSet::new();
+        for inv in &item.invs {
+            rep.count("coverage", &format!("cold/{}/{}", inv.kind, inv.loc));
+            let c = if i == 0 { "warm-first-compile" } else { cache_class(inv, &loaded, &cached_roots) };
+            rep.count("coverage", &format!("{c}/{}/{}", inv.kind, inv.loc));
+            rep.count("cache_class", c);
+            rep.count("kind_cold", inv.kind);
+            if i > 0 {
+                rep.count("kind_warm", inv.kind);
+            }
+            classes.insert(c);
+        }
+        let pc = ["warm-different-module-equal-root", "warm-same-module", "warm-uncached", "warm-first-compile"]
+            .iter()
+            .find(|c| classes.contains(*c))
+            .copied()
+            .unwrap_or("warm-no-invocation");
+        rep.eval(&format!("cold|{ks}"));
+        rep.eval(&format!("{pc}|{ks}"));
+        let before: BTreeMap<String, u64> = rep.violation_counts.clone();
+        let wit = || history_witness(world, seq, i);
+        check_step(world, built, &warm, item, universe_roots, &wit, rep);
+        // shrink new signatures once per sequence
+        let new_sigs: Vec<String> = rep
+            .violation_counts
+            .iter()
+            .filter(|(s, c)| before.get(*s).copied().unwrap_or(0) < **c && !shrunk.contains(*s))
+            .map(|(s, _)| s.clone())
+            .collect();
+        if !new_sigs.is_empty() && i > 1 {
+            for s in &new_sigs {
+                shrunk.insert(s.clone());
+            }
+            shrink_history(world, built, seq, i, &new_sigs, universe_roots, rep);
+        }
+        // model of the cache after this compile
+        loaded.extend(item.loads.iter().copied());
+        cached_roots.extend(item.load_roots.iter().copied());
+    }
+}
+
+fn check_reexport_call(world: &World, built: &[MaslLibrary], via: &str, direct: &str, rep: &mut Report) {
+    let (Built::Ok(a1), Built::Ok(a2)) = (fresh(world, built, &identity(built.len())), fresh(world, built, &identity(built.len()))) else {
+        return;
+    };
+    rep.eval("re-export|call");
+    rep.count("re_export", "call");
+    let mut w = world.to_json();
+    w["kind"] = json!("reexport");
+    w["via"] = json!(via);
+    w["direct"] = json!(direct);
+    match (compile(&a1, via), compile(&a2, direct)) {
+        (Comp::Ok(v), Comp::Ok(d)) => {
+            if v.hash() != d.hash() {
+                rep.violation("re-export/root-mismatch/call", "calling through a re-export gives a different program than calling the original", w);
+            } else if let CodeBlock::Call(c) = d.root() {
+                if v.cb_table().has(c.fn_hash()) != d.cb_table().has(c.fn_hash()) || !v.cb_table().has(c.fn_hash()) {
+                    rep.violation("re-export/cb-table/call", "call target reached through a re-export is not in the code block table", w);
+                }
+            }
+        }
+        (Comp::Panic(p), _) | (_, Comp::Panic(p)) => rep.violation(format!("panic/compile/{}", p.site()), format!("compile panicked: {}", p.message), w),
+        (v, d) => {
+            if v.class() != d.class() {
+                rep.violation("re-export/outcome/call", format!("call through re-export: {}, direct: {}", v.class(), d.class()), w);
+            } else {
+                rep.count("harness", "reexport-probe-rejected");
+            }
+        }
+    }
+}
+
+fn permutations(n: usize) -> Vec<Vec<usize>> {
+    fn rec(cur: &mut Vec<usize>, used: &mut Vec<bool>, n: usize, out: &mut Vec<Vec<usize>>) {
+        if cur.len() == n {
+            out.push(cur.clone());
+            return;
+        }
+        for i in 0..n {
+            if !used[i] {
+                used[i] = true;
+                cur.push(i);
+                rec(cur, used, n, out);
+                cur.pop();
+                used[i] = false;
+            }
+        }
+    }
+    let mut out = vec![];
+    rec(&mut vec![], &mut vec![false; n], n, &mut out);
+    out
+}
+
+struct Fingerprint {
+    class: &'static str,
+    hash: Option<W>,
+    kernel: String,
+    table: String,
+}
+
+fn fingerprint(c: &Comp) -> Fingerprint {
+    match c {
+        Comp::Ok(p) => Fingerprint { class: "ok", hash: Some(to_w(p.hash())), kernel: format!("{:?}", p.kernel()), table: format!("{:?}", p.cb_table()) },
+        o => Fingerprint { class: o.class(), hash: None, kernel: String::new(), table: String::new() },
+    }
+}
+
+fn order_one(world: &World, built: &[MaslLibrary], src: &str, perm: &[usize], base: &Fingerprint, rep: &mut Report) {
+    let mut w = world.to_json();
+    w["kind"] = json!("order");
+    w["src"] = json!(src);
+    w["perm"] = json!(perm);
+    let asm = match fresh(world, built, perm) {
+        Built::Ok(a) => a,
+        Built::Err(e) => {
+            rep.violation("library-order/assembler-setup", format!("adding the libraries in order {perm:?} fails: {e}"), w);
+            return;
+        }
+        Built::Panic(p) => {
+            rep.violation(format!("panic/assembler-setup/{}", p.site()), format!("with_library order {perm:?} panicked: {}", p.message), w);
+            return;
+        }
+    };
+    let c = compile(&asm, src);
+    if let Comp::Panic(p) = &c {
+        rep.violation(format!("panic/compile/{}", p.site()), format!("compile panicked: {}", p.message), w);
+        return;
+    }
+    let f = fingerprint(&c);
+    let what = if f.class != base.class {
+        Some("outcome")
+    } else if f.hash != base.hash {
+        Some("program-hash")
+    } else if f.kernel != base.kernel {
+        Some("kernel")
+    } else if f.table != base.table {
+        Some("cb-table")
+    } else {
+        None
+    };
+    if let Some(what) = what {
+        rep.violation(format!("library-order/{what}"), format!("with_library order {perm:?} gives a different {what} than order 0..n"), w);
+    }
+}
+
+fn order_check(rng: &mut Rng8, world: &World, built: &[MaslLibrary], pool: &[SeqItem], rep: &mut Report) {
+    let n = built.len();
+    if n > 4 || n < 2 {
+        return;
+    }
+    let perms = permutations(n);
+    let k = pool.len().min(3);
+    let mut picks: Vec<usize> = (0..pool.len()).collect();
+    picks.shuffle(rng);
+    for &pi in picks.iter().take(k) {
+        let item = &pool[pi];
+        if item.src.contains("call.0x") {
+            continue;
+        }
+        let base = match fresh(world, built, &perms[0]) {
+            Built::Ok(a) => fingerprint(&compile(&a, &item.src)),
+            _ => return,
+        };
+        for perm in perms.iter().skip(1) {
+            rep.eval(&format!("order|libs={n}|{}", kinds_sig(&item.invs)));
+            rep.count("library_order", &format!("libs={n}"));
+            order_one(world, built, &item.src, perm, &base, rep);
+        }
+    }
+}
+
+// DIRECTED SCENARIOS (minimal worlds for the equal-root cache classes)
+// ================================================================================================
+
+fn lib1(ns: &str, path: &str, src: &str) -> LibSrc {
+    LibSrc { namespace: ns.into(), modules: vec![(path.into(), src.into())] }
+}
+
+fn directed(rep: &mut Report) {
+    // foo and its root
+    let la = lib1("la", "la::m0", "export.foo\n    push.7 drop\nend\n");
+    let w0 = World { libs: vec![la.clone()], ..Default::default() };
+    let Ok(b0) = w0.build() else {
+        rep.count("harness", "directed-build-failed");
+        return;
+    };
+    let Some(root) = fresh_hash(&w0, &b0, "use.la::m0 begin exec.m0::foo end") else {
+        rep.count("harness", "directed-root-unavailable");
+        return;
+    };
+    let h = w_str(&root);
+    let world = World {
+        libs: vec![
+            la,
+            lib1("lb", "lb::m1", &format!("export.a\n    push.{h}\nend\n")),
+            lib1("lc", "lc::m2", "use.la::m0\nexport.b\n    procref.m0::foo\nend\n"),
+            lib1("ld", "ld::m3", &format!("use.la::m0\nexport.a2\n    push.{h}\nend\nexport.b2\n    procref.m0::foo\nend\n")),
+        ],
+        kernel: None,
+        stack: vec![],
+    };
+    let Ok(built) = world.build() else {
+        rep.count("harness", "directed-build-failed");
+        return;
+    };
+    let Some(r_ab) = fresh_hash(&world, &built, "use.lb::m1 begin exec.m1::a end") else {
+        rep.count("harness", "directed-root-unavailable");
+        return;
+    };
+    rep.count("directed", if fresh_hash(&world, &built, "use.lc::m2 begin exec.m2::b end") == Some(r_ab) { "a-and-b-share-root" } else { "a-and-b-differ" });
+    let inv = |kind: &'static str, tm: usize, r: W| Inv { kind, loc: "imported", tm: Some(tm), root: Some(r) };
+    let mk = |src: &str, procref: bool, dk: u8, invs: Vec<Inv>, loads: &[usize], roots: &[W]| {
+        let mut it = SeqItem { src: src.to_string(), expect_ok: true, invs, ..Default::default() };
+        if procref {
+            it.needed.insert(root, "procref".into());
+        }
+        if dk != 0 {
+            it.dynk.insert(root, dk);
+        }
+        it.loads = loads.iter().copied().collect();
+        it.load_roots = roots.iter().copied().collect();
+        it
+    };
+    let pa = mk("use.lb::m1\nbegin\n    exec.m1::a dropw\nend\n", false, 0, vec![inv("exec", 1, r_ab)], &[1], &[r_ab]);
+    let pa_dyn = mk("use.lb::m1\nbegin\n    exec.m1::a dynexec dropw\nend\n", false, 1, vec![inv("exec", 1, r_ab), inv("dynexec", 1, r_ab)], &[1], &[r_ab]);
+    let pb_exec = mk("use.lc::m2\nbegin\n    exec.m2::b dynexec dropw\nend\n", true, 1, vec![inv("exec", 2, r_ab), inv("dynexec", 2, r_ab)], &[0, 2], &[r_ab, root]);
+    let pb_call = mk("use.lc::m2\nbegin\n    exec.m2::b dyncall dropw\nend\n", true, 2, vec![inv("exec", 2, r_ab), inv("dyncall", 2, r_ab)], &[0, 2], &[r_ab, root]);
+    let pb_ref = mk("use.lc::m2\nbegin\n    exec.m2::b dropw\nend\n", true, 0, vec![inv("exec", 2, r_ab)], &[0, 2], &[r_ab, root]);
+    let pd = mk("use.ld::m3\nbegin\n    exec.m3::b2 dynexec dropw\nend\n", true, 1, vec![inv("exec", 3, r_ab), inv("dynexec", 3, r_ab)], &[0, 3], &[r_ab, root]);
+    let mut pcall = mk("use.la::m0\nbegin\n    call.m0::foo\nend\n", false, 0, vec![inv("call", 0, root)], &[0], &[root]);
+    pcall.needed.insert(root, "call".into());
+    let roots: BTreeSet<W> = [root, r_ab].into_iter().collect();
+    let none = BTreeSet::new();
+    let seqs: Vec<Vec<&SeqItem>> = vec![
+        vec![&pa, &pb_exec],
+        vec![&pa, &pb_call],
+        vec![&pa, &pb_ref],
+        vec![&pb_exec, &pa_dyn],
+        vec![&pb_exec, &pb_exec],
+        vec![&pd],
+        vec![&pa, &pcall, &pb_exec],
+        vec![&pcall, &pb_call, &pa],
+    ];
+    for s in &seqs {
+        rep.count("directed", "sequence");
+        drive_sequence(&world, &built, s, &roots, &none, rep);
+    }
+}
+
+// INVALID CORPUS (rejection classes taken from docs/src/user_docs/assembly/*.md)
+// ================================================================================================
+
+#[derive(Clone, Copy, Debug, PartialEq, Eq)]
+enum Expect {
+    /// documented as invalid: must be `Err`
+    Reject,
+    /// valid or unspecified: only "no panic" is required
+    NoPanic,
+    /// valid neighbour of a rejected case (guards the corpus against typos): must be `Ok`
+    Accept,
+}
+
+#[derive(Clone, Debug)]
+struct InvCase {
+    class: String,
+    variant: String,
+    tpl: &'static str,
+    case: Case,
+    expect: Expect,
+}
+
+const TPL_NAMES: [&str; 8] = ["begin", "proc", "proc-if", "proc-repeat", "proc-while", "library", "kernel", "begin-mid"];
+
+/// Puts instruction text `i` into one of eight contexts. `locals`: None = `proc.p`, Some(n) = `proc.p.n`.
+fn tpl(t: usize, i: &str, locals: Option<u16>) -> Option<Case> {
+    let suffix = match locals {
+        None => String::new(),
+        Some(n) => format!(".{n}"),
+    };
+    let has_locals = matches!(locals, Some(n) if n > 0);
+    Some(match t {
+        0 => {
+            if has_locals {
+                return None;
+            }
+            Case::new(format!("begin\n    {i}\nend\n"))
+        }
+        1 => Case::new(format!("proc.p{suffix}\n    {i}\nend\nbegin\n    exec.p\nend\n")),
+        2 => Case::new(format!("proc.p{suffix}\n    push.1 if.true {i} else push.2 drop end\nend\nbegin\n    exec.p\nend\n")),
+        3 => Case::new(format!("proc.p{suffix}\n    repeat.2 {i} end\nend\nbegin\n    exec.p\nend\n")),
+        4 => Case::new(format!("proc.p{suffix}\n    push.0 while.true {i} push.0 end\nend\nbegin\n    exec.p\nend\n")),
+        5 => {
+            let mut c = Case::new("use.la::m\nbegin\n    exec.m::e\nend\n");
+            c.libs = vec![lib1("la", "la::m", &format!("export.e{suffix}\n    {i}\nend\n"))];
+            c
+        }
+        6 => {
+            let mut c = Case::new("begin\n    syscall.k\nend\n");
+            c.kernel = Some(format!("export.k{suffix}\n    {i}\nend\n"));
+            c
+        }
+        _ => {
+            if has_locals {
+                return None;
+            }
+            Case::new(format!("begin\n    push.1 {i} drop\nend\n"))
+        }
+    })
+}
+
+struct Corpus {
+    cases: Vec<InvCase>,
+}
+
+impl Corpus {
+    /// instruction-level case in the given templates
+    fn instr(&mut self, class: &str, i: &str, locals: Option<u16>, expect: Expect, tpls: &[usize]) {
+        for &t in tpls {
+            if let Some(case) = tpl(t, i, locals) {
+                let variant = match locals {
+                    Some(n) => format!("{i} [locals={n}]"),
+                    None => i.to_string(),
+                };
+                self.cases.push(InvCase { class: class.into(), variant, tpl: TPL_NAMES[t], case, expect });
+            }
+        }
+    }
+    fn whole(&mut self, class: &str, variant: &str, case: Case, expect: Expect) {
+        self.cases.push(InvCase { class: class.into(), variant: variant.into(), tpl: "whole-source", case, expect });
+    }
+    fn src(&mut self, class: &str, src: &str, expect: Expect) {
+        self.whole(class, src, Case::new(src), expect);
+    }
+}
+
+const LIB_M: &str = "proc.internal\n    push.1 drop\nend\nexport.foo\n    push.2 drop\nend\n";
+
+fn with_lib(src: &str) -> Case {
+    let mut c = Case::new(src);
+    c.libs = vec![lib1("la", "la::m", LIB_M)];
+    c
+}
+fn with_kernel(kernel: &str, src: &str) -> Case {
+    let mut c = Case::new(src);
+    c.kernel = Some(kernel.into());
+    c
+}
+
+/// `tpls(class_no)` picks the templates for instruction-level cases (all of them in the
+/// exhaustive pass, random ones in the random passes).
+fn invalid_corpus(pick: &mut dyn FnMut(&[usize]) -> Vec<usize>) -> Corpus {
+    use Expect::*;
+    let mut c = Corpus { cases: vec![] };
+    const ALL: [usize; 8] = [0, 1, 2, 3, 4, 5, 6, 7];
+    const NOKERNEL: [usize; 7] = [0, 1, 2, 3, 4, 5, 7];
+    const PROCS: [usize; 6] = [1, 2, 3, 4, 5, 6];
+
+    // --- division by a zero immediate (field_operations.md, u32_operations.md: "Fails if b = 0")
+    for op in ["div", "u32div", "u32mod", "u32divmod"] {
+        c.instr(&format!("div-zero-imm/{op}"), &format!("{op}.0"), None, Reject, &pick(&ALL));
+        c.instr(&format!("div-zero-imm/{op}"), &format!("{op}.1"), None, Accept, &pick(&ALL));
+    }
+    // --- shift / rotate immediates (u32_operations.md: b > 31 is outside the defined range)
+    for op in ["u32shl", "u32shr", "u32rotl", "u32rotr"] {
+        for b in ["32", "33", "64", "255", "4294967295"] {
+            c.instr(&format!("shift-imm/{op}"), &format!("{op}.{b}"), None, Reject, &pick(&ALL));
+        }
+        for b in ["31", "1"] {
+            c.instr(&format!("shift-imm/{op}"), &format!("{op}.{b}"), None, Accept, &pick(&ALL));
+        }
+    }
+    // --- exp.uXX (field_operations.md: exp is exp.u64, larger bit sizes fail)
+    for b in ["65", "66", "128", "255"] {
+        c.instr("exp-bits", &format!("exp.u{b}"), None, Reject, &pick(&ALL));
+    }
+    for b in ["64", "1", "32"] {
+        c.instr("exp-bits", &format!("exp.u{b}"), None, Accept, &pick(&ALL));
+    }
+    // --- push of a non-field value (io_operations.md: "All values must be valid field elements")
+    for v in [
+        "18446744069414584321",
+        "18446744069414584322",
+        "18446744073709551615",
+        "18446744073709551616",
+        "0xffffffff00000001",
+        "0xffffffffffffffff",
+        "1.18446744069414584321",
+        "0x01000000ffffffff000000000000000000000000000000000000000000000000",
+    ] {
+        c.instr("push-out-of-field", &format!("push.{v}"), None, Reject, &pick(&ALL));
+    }
+    for v in ["18446744069414584320", "0xffffffff00000000", "1.18446744069414584320", "0x00000000ffffffff000000000000000000000000000000000000000000000000"] {
+        c.instr("push-out-of-field", &format!("push.{v}"), None, Accept, &pick(&ALL));
+    }
+    c.instr("push-too-many", "push.1.2.3.4.5.6.7.8.9.10.11.12.13.14.15.16.17", None, Reject, &pick(&ALL));
+    c.instr("push-too-many", "push.1.2.3.4.5.6.7.8.9.10.11.12.13.14.15.16", None, Accept, &pick(&ALL));
+    // --- stack manipulation indices (stack_manipulation.md "Valid for n in {...}")
+    for (op, bad, good) in [
+        ("dup", vec!["16", "17", "255"], vec!["15", "0"]),
+        ("dupw", vec!["4", "5"], vec!["3", "0"]),
+        ("swap", vec!["16", "17"], vec!["15", "1"]),
+        ("swapw", vec!["4", "5"], vec!["3", "1"]),
+        ("movup", vec!["1", "16", "17"], vec!["2", "15"]),
+        ("movdn", vec!["1", "16", "17"], vec!["2", "15"]),
+        ("movupw", vec!["1", "4"], vec!["2", "3"]),
+        ("movdnw", vec!["1", "4"], vec!["2", "3"]),
+    ] {
+        for b in bad {
+            c.instr(&format!("stack-index/{op}"), &format!("{op}.{b}"), None, Reject, &pick(&ALL));
+        }
+        for g in good {
+            c.instr(&format!("stack-index/{op}"), &format!("{op}.{g}"), None, Accept, &pick(&ALL));
+        }
+    }
+    for op in ["swap", "swapw", "movup", "movdn", "movupw", "movdnw"] {
+        c.instr(&format!("stack-index-zero/{op}"), &format!("{op}.0"), None, Reject, &pick(&ALL));
+    }
+    // --- adv_push.n valid for n in 1..16 (io_operations.md)
+    for n in ["0", "17", "18", "255"] {
+        c.instr("adv-push-count", &format!("adv_push.{n}"), None, Reject, &pick(&ALL));
+    }
+    for n in ["1", "16"] {
+        c.instr("adv-push-count", &format!("adv_push.{n}"), None, Accept, &pick(&ALL));
+    }
+    // --- unknown instructions / malformed parameters
+    for i in ["foo", "pusha", "add.1.2", "u32shl.x", "push", "mem_load.x", "exec", "dup.x", "push.0x", "push.-1", "loc_load", "adv_push", "u32wrapping_add.4294967296"] {
+        c.instr("unknown-instruction", i, None, Reject, &pick(&ALL));
+    }
+    c.instr("unknown-instruction", "add.1", None, Accept, &pick(&ALL));
+    c.instr("unknown-instruction", "u32wrapping_add.4294967295", None, Accept, &pick(&ALL));
+    // --- locals (io_operations.md: "trying to access more locals than was declared will result
+    //     in a compile-time error"; "available only in procedure context")
+    for op in ["loc_load", "loc_store", "loc_loadw", "loc_storew", "locaddr"] {
+        for n in [1u32, 2, 3, 255, 65535] {
+            let mut bad = vec![n, n + 1, 65535, 65536];
+            bad.retain(|b| *b >= n);
+            bad.dedup();
+            for b in bad {
+                if n == 65535 && b == 65535 {
+                    continue;
+                }
+                c.instr(&format!("local-index/{op}"), &format!("{op}.{b}"), Some(n as u16), Reject, &pick(&PROCS));
+            }
+            if n == 65535 {
+                c.instr(&format!("local-index/{op}"), &format!("{op}.65536"), Some(65535), Reject, &pick(&PROCS));
+            }
+            c.instr(&format!("local-index/{op}"), &format!("{op}.{}", n - 1), Some(n as u16), Accept, &pick(&PROCS));
+            c.instr(&format!("local-index/{op}"), &format!("{op}.0"), Some(n as u16), Accept, &pick(&PROCS));
+        }
+        for idx in ["0", "1", "65535"] {
+            c.instr(&format!("locals-zero/{op}"), &format!("{op}.{idx}"), None, Reject, &pick(&ALL));
+            c.instr(&format!("locals-zero/{op}"), &format!("{op}.{idx}"), Some(0), Reject, &pick(&ALL));
+        }
+        c.instr(&format!("locals-zero/{op}"), &format!("{op}.0"), Some(1), Accept, &pick(&PROCS));
+    }
+    for n in ["65537", "4294967296"] {
+        c.src("num-locals", &format!("proc.p.{n}\n    push.1 drop\nend\nbegin\n    exec.p\nend\n"), Reject);
+    }
+    c.src("num-locals", "proc.p.65535\n    push.1 drop\nend\nbegin\n    exec.p\nend\n", Accept);
+    // --- caller outside a kernel (execution_contexts.md: only kernel procedures can use `caller`)
+    c.instr("caller-outside-kernel", "caller", None, Reject, &pick(&NOKERNEL));
+    c.instr("caller-outside-kernel", "caller", None, Accept, &[6]);
+    // --- call / syscall inside a kernel module (execution_contexts.md)
+    let prog = "begin\n    push.1 drop\nend\n";
+    for (v, k) in [
+        ("call-local", "proc.h\n    push.1 drop\nend\nexport.k\n    call.h\nend\n"),
+        ("syscall", "export.k1\n    push.1 drop\nend\nexport.k2\n    syscall.k1\nend\n"),
+        ("call-in-if", "proc.h\n    push.1 drop\nend\nexport.k\n    push.1 if.true call.h else push.1 drop end\nend\n"),
+        ("call-in-repeat", "proc.h\n    push.1 drop\nend\nexport.k\n    repeat.2 call.h end\nend\n"),
+        ("call-in-internal", "proc.h\n    push.1 drop\nend\nproc.g\n    call.h\nend\nexport.k\n    exec.g\nend\n"),
+    ] {
+        c.whole("call-in-kernel", v, with_kernel(k, prog), Reject);
+    }
+    {
+        let mut cs = with_lib(prog);
+        cs.kernel = Some("use.la::m\nexport.k\n    call.m::foo\nend\n".into());
+        c.whole("call-in-kernel", "call-imported", cs, Reject);
+        let mut cs = with_lib(prog);
+        cs.kernel = Some("use.la::m\nexport.k\n    exec.m::foo\nend\n".into());
+        c.whole("call-in-kernel", "exec-imported", cs, Accept);
+    }
+    c.whole("call-in-kernel", "exec-local", with_kernel("proc.h\n    push.1 drop\nend\nexport.k\n    exec.h\nend\n", prog), Accept);
+    // --- undefined procedures (code_organization.md)
+    for i in ["exec.nope", "call.nope", "procref.nope", "syscall.nope", "exec.m::foo", "call.m::foo", "procref.m::foo"] {
+        c.instr("undefined-procedure", i, None, Reject, &pick(&NOKERNEL));
+    }
+    c.whole("undefined-procedure", "syscall-not-in-kernel", with_kernel("export.k\n    push.1 drop\nend\n", "begin\n    syscall.other\nend\n"), Reject);
+    c.whole("undefined-procedure", "syscall-in-kernel", with_kernel("export.k\n    push.1 drop\nend\n", "begin\n    syscall.k\nend\n"), Accept);
+    c.whole("undefined-procedure", "syscall-internal-kernel-proc", with_kernel("proc.h\n    push.1 drop\nend\nexport.k\n    exec.h\nend\n", "begin\n    syscall.h\nend\n"), Reject);
+    c.src("undefined-procedure", "proc.a\n    exec.b\nend\nproc.b\n    push.1 drop\nend\nbegin\n    exec.a\nend\n", Reject);
+    c.src("undefined-procedure", "proc.a\n    exec.a\nend\nbegin\n    exec.a\nend\n", Reject);
+    c.src("undefined-procedure", "proc.a\n    call.a\nend\nbegin\n    exec.a\nend\n", Reject);
+    c.src("undefined-procedure", "proc.b\n    push.1 drop\nend\nproc.a\n    exec.b\nend\nbegin\n    exec.a\nend\n", Accept);
+    for (v, src, e) in [
+        ("imported-missing-proc", "use.la::m\nbegin\n    exec.m::nope\nend\n", Reject),
+        ("imported-missing-proc-call", "use.la::m\nbegin\n    call.m::nope\nend\n", Reject),
+        ("imported-missing-proc-procref", "use.la::m\nbegin\n    procref.m::nope\nend\n", Reject),
+        ("imported-internal-proc", "use.la::m\nbegin\n    exec.m::internal\nend\n", Reject),
+        ("missing-module", "use.la::other\nbegin\n    exec.other::foo\nend\n", Reject),
+        ("missing-library", "use.zz::m\nbegin\n    exec.m::foo\nend\n", Reject),
+        ("alias-not-used", "use.la::m->q\nbegin\n    exec.m::foo\nend\n", Reject),
+        ("imported-ok", "use.la::m\nbegin\n    exec.m::foo call.m::foo procref.m::foo dropw\nend\n", Accept),
+        ("imported-alias-ok", "use.la::m->q\nbegin\n    exec.q::foo\nend\n", Accept),
+    ] {
+        c.whole("undefined-procedure", v, with_lib(src), e);
+    }
+    {
+        let mut cs = Case::new("use.lb::n\nbegin\n    exec.n::e\nend\n");
+        cs.libs = vec![lib1("la", "la::m", LIB_M), lib1("lb", "lb::n", "use.la::m\nexport.e\n    exec.m::nope\nend\n")];
+        c.whole("undefined-procedure", "nested-import-missing-proc", cs, Reject);
+        let mut cs = Case::new("use.lb::n\nbegin\n    exec.n::nope\nend\n");
+        cs.libs = vec![lib1("la", "la::m", LIB_M), lib1("lb", "lb::n", "use.la::m\nexport.m::nope\n")];
+        c.whole("undefined-procedure", "re-export-of-missing-proc", cs, Reject);
+    }
+    // --- duplicate procedure names
+    c.src("duplicate-procedure", "proc.f\n    push.1 drop\nend\nproc.f\n    push.2 drop\nend\nbegin\n    exec.f\nend\n", Reject);
+    c.src("duplicate-procedure", "proc.f\n    push.1 drop\nend\nproc.f\n    push.1 drop\nend\nbegin\n    exec.f\nend\n", Reject);
+    c.src("duplicate-procedure", "proc.f\n    push.1 drop\nend\nproc.g\n    push.1 drop\nend\nbegin\n    exec.f exec.g\nend\n", Accept);
+    for (v, m) in [
+        ("library-export-export", "export.f\n    push.1 drop\nend\nexport.f\n    push.2 drop\nend\n"),
+        ("library-proc-export", "proc.f\n    push.1 drop\nend\nexport.f\n    push.2 drop\nend\n"),
+    ] {
+        let mut cs = Case::new("use.la::d\nbegin\n    exec.d::f\nend\n");
+        cs.libs = vec![lib1("la", "la::d", m)];
+        c.whole("duplicate-procedure", v, cs, Reject);
+    }
+    c.whole("duplicate-procedure", "kernel", with_kernel("export.k\n    push.1 drop\nend\nexport.k\n    push.2 drop\nend\n", "begin\n    syscall.k\nend\n"), Reject);
+    // --- export in an executable module ("A program cannot contain any exported procedures")
+    c.src("export-in-executable", "export.f\n    push.1 drop\nend\nbegin\n    exec.f\nend\n", Reject);
+    c.src("export-in-executable", "export.f\n    push.1 drop\nend\nbegin\n    push.1 drop\nend\n", Reject);
+    c.src("export-in-executable", "proc.g\n    push.1 drop\nend\nexport.f\n    exec.g\nend\nbegin\n    exec.g\nend\n", Reject);
+    c.whole("export-in-executable", "re-export", with_lib("use.la::m\nexport.m::foo\nbegin\n    push.1 drop\nend\n"), Reject);
+    // --- repeat.<count>: "count must be an integer ... greater than 0" (flow_control.md)
+    for body in ["push.1 drop", "push.1"] {
+        c.instr("repeat.0", &format!("repeat.0 {body} end"), None, Reject, &pick(&ALL));
+        c.instr("repeat.0", &format!("repeat.1 {body} end"), None, Accept, &pick(&ALL));
+    }
+    // --- block structure
+    for src in [
+        "begin\n    push.1 drop\n",
+        "begin\n    push.1 if.true push.2 drop end\n",
+        "begin\n    push.1 if.true push.2 drop else push.3 drop end\n",
+        "begin\n    repeat.2 push.1 drop\nend\n",
+        "begin\n    push.0 while.true push.0 end\n",
+        "proc.f\n    push.1 drop\nbegin\n    exec.f\nend\n",
+        "proc.f\n    push.1 drop\nend\n",
+        "",
+        "begin\n    push.1 drop\nend\nend\n",
+        "begin\n    else push.1 drop end\nend\n",
+        "begin\n    push.1 drop\nend\nbegin\n    push.1 drop\nend\n",
+        "begin\n    push.1 drop\nend\nproc.f\n    push.1 drop\nend\n",
+        "begin\n    push.1 drop\nend\npush.1\n",
+        "begin\n    proc.f push.1 drop end\nend\n",
+        "begin\n    push.1 if.false push.2 drop end\nend\n",
+        "begin\n    push.1 while.false push.0 end\nend\n",
+        "begin\n    #! doc comment inside a body\n    push.1 drop\nend\n",
+    ] {
+        c.src("block-structure", src, Reject);
+    }
+    c.src("block-structure", "# comment\nproc.f\n    push.1 drop\nend\nbegin\n    exec.f\nend\n# trailing comment\n", Accept);
+    // --- labels and constants (code_organization.md)
+    let l100 = "a".repeat(100);
+    let l101 = "a".repeat(101);
+    let c100 = "A".repeat(100);
+    let c101 = "A".repeat(101);
+    let l256 = "a".repeat(256);
+    let c256 = "A".repeat(256);
+    for (cl, src, e) in [
+        ("label/syntax", "proc.1abc\n    push.1 drop\nend\nbegin\n    exec.1abc\nend\n".to_string(), Reject),
+        ("label/syntax", "proc._abc\n    push.1 drop\nend\nbegin\n    exec._abc\nend\n".to_string(), Reject),
+        ("label/syntax", "proc.a-b\n    push.1 drop\nend\nbegin\n    exec.a-b\nend\n".to_string(), Reject),
+        ("label/length-101", format!("proc.{l101}\n    push.1 drop\nend\nbegin\n    exec.{l101}\nend\n"), Reject),
+        ("label/length-256", format!("proc.{l256}\n    push.1 drop\nend\nbegin\n    exec.{l256}\nend\n"), Reject),
+        ("label/length-101", format!("proc.{l100}\n    push.1 drop\nend\nbegin\n    exec.{l100}\nend\n"), Accept),
+        ("label/syntax", "proc.aB_9\n    push.1 drop\nend\nbegin\n    exec.aB_9\nend\n".to_string(), Accept),
+    ] {
+        c.src(cl, &src, e);
+    }
+    for (cl, src, e) in [
+        ("constant/name", "const.abc=1\nbegin\n    push.abc drop\nend\n".to_string(), Reject),
+        ("constant/value", "const.A=18446744069414584321\nbegin\n    push.A drop\nend\n".to_string(), Reject),
+        ("constant/value", "const.A=18446744073709551616\nbegin\n    push.A drop\nend\n".to_string(), Reject),
+        ("constant/name-length-101", format!("const.{c101}=1\nbegin\n    push.{c101} drop\nend\n"), Reject),
+        ("constant/name-length-256", format!("const.{c256}=1\nbegin\n    push.{c256} drop\nend\n"), Reject),
+        ("constant/duplicate", "const.A=1\nconst.A=2\nbegin\n    push.A drop\nend\n".to_string(), Reject),
+        ("constant/undefined", "begin\n    push.UNDEFINED drop\nend\n".to_string(), Reject),
+        ("constant/position", "proc.f\n    push.1 drop\nend\nconst.A=1\nbegin\n    push.A drop\nend\n".to_string(), Reject),
+        ("constant/name-length-101", format!("const.{c100}=1\nbegin\n    push.{c100} drop\nend\n"), Accept),
+        ("constant/value", "const.A=18446744069414584320\nconst.B_2=A-1\nbegin\n    push.A.B_2 drop drop\nend\n".to_string(), Accept),
+    ] {
+        c.src(cl, &src, e);
+    }
+    // --- documented parameter ranges of decorators / error codes (debugging.md, events.md, ...)
+    for (i, e) in [
+        ("debug.stack.0", Reject),
+        ("debug.stack.256", Reject),
+        ("debug.stack.1", Accept),
+        ("debug.stack.255", Accept),
+        ("debug.local.65536", Reject),
+        ("debug.local.0.65536", Reject),
+        ("debug.local.3.2", Reject),
+        ("debug.mem.5.4", Reject),
+        ("debug.mem.4294967296", Reject),
+        ("debug.mem.4.4", Accept),
+        ("debug.local.65535", Accept),
+        ("emit.4294967296", Reject),
+        ("emit.4294967295", Accept),
+        ("trace.4294967296", Reject),
+        ("trace.4294967295", Accept),
+        ("adv.insert_hdword.256", Reject),
+        ("adv.insert_hdword.255", Accept),
+        ("assert.err=4294967296", Reject),
+        ("assert.err=4294967295", Accept),
+        ("u32assert.err=4294967296", Reject),
+        ("adv.push_mapval.5", NoPanic),
+        ("adv.push_sig.unknown_scheme", Reject),
+    ] {
+        for dm in [false, true] {
+            if let Some(mut cs) = tpl(7, i, None) {
+                cs.debug_mode = dm;
+                let cut = i.char_indices().find(|(k, ch)| *ch == '=' || (*ch == '.' && i[k + 1..].starts_with(|d: char| d.is_ascii_digit()))).map(|(k, _)| k).unwrap_or(i.len());
+                let base = i[..cut].to_string();
+                c.cases.push(InvCase { class: format!("decorator-parameter/{base}"), variant: format!("{i} [debug_mode={dm}]"), tpl: TPL_NAMES[7], case: cs, expect: e });
+            }
+        }
+    }
+    // --- decorator-only bodies: VALID per the docs (decorators are instructions) => no panic
+    for i in ["emit.1", "trace.1", "adv.push_mapval", "adv.insert_mem", "adv.push_u64div", "debug.stack", "emit.1 trace.2 adv.push_mapvaln"] {
+        for dm in [false, true] {
+            for t in pick(&ALL) {
+                if let Some(mut cs) = tpl(t, i, None) {
+                    if t == 7 {
+                        continue;
+                    }
+                    cs.debug_mode = dm;
+                    c.cases.push(InvCase { class: "decorator-only-body".into(), variant: format!("{i} [debug_mode={dm}]"), tpl: TPL_NAMES[t], case: cs, expect: NoPanic });
+                }
+            }
+        }
+    }
+    for (src, dm) in [
+        ("begin\n    push.1 if.true trace.1 else debug.stack end\nend\n", false),
+        ("begin\n    push.1 if.true trace.1 else debug.stack end\nend\n", true),
+        ("begin\n    push.1 if.true push.1 drop else emit.3 end\nend\n", false),
+        ("begin\n    push.1 if.true emit.3 end\nend\n", false),
+        ("proc.p\n    adv.push_mapval\nend\nbegin\n    exec.p\nend\n", false),
+        ("proc.p\n    adv.push_mapval\nend\nbegin\n    call.p\nend\n", false),
+        ("proc.p.2\n    emit.1\nend\nbegin\n    exec.p\nend\n", false),
+        ("begin\n    push.1 drop repeat.2 emit.1 end\nend\n", false),
+        ("begin\n    push.1 drop emit.1\nend\n", false),
+        ("begin\n    emit.1 push.1 drop\nend\n", false),
+        ("begin\n    debug.stack\nend\n", false),
+        ("begin\n    debug.stack debug.mem\nend\n", true),
+    ] {
+        let mut cs = Case::new(src);
+        cs.debug_mode = dm;
+        c.whole("decorator-only-body", &format!("{src} [debug_mode={dm}]"), cs, NoPanic);
+    }
+    // --- empty bodies: not specified by the docs => no panic
+    for src in ["begin\nend\n", "proc.f\nend\nbegin\n    exec.f\nend\n", "begin\n    push.1 if.true end\nend\n", "begin\n    repeat.3 end\nend\n", "begin\n    push.0 while.true end\nend\n", "begin\n    push.1 if.true push.1 drop else end\nend\n"] {
+        c.src("empty-body", src, NoPanic);
+    }
+    c
+}
+
+fn eval_invalid(ic: &InvCase, rep: &mut Report) {
+    rep.eval(&format!("invalid|{}|{}|{:?}", ic.class, ic.tpl, ic.expect));
+    rep.count("invalid_class", &format!("{}:{}", ic.class, match ic.expect { Expect::Reject => "reject", Expect::NoPanic => "no-panic", Expect::Accept => "control" }));
+    rep.count("invalid_template", ic.tpl);
+    let wit = || json!({"kind": "invalid", "class": ic.class, "variant": ic.variant, "template": ic.tpl, "expect": format!("{:?}", ic.expect), "case": ic.case.to_json()});
+    let out = ic.case.assemble();
+    let oc = match &out {
+        AsmOutcome::Ok(_) => "ok",
+        AsmOutcome::Err(_) => "err",
+        AsmOutcome::Panic(_) => "panic",
+    };
+    rep.count("invalid_outcome", &format!("{:?}:{oc}", ic.expect));
+    match (ic.expect, out) {
+        (Expect::Reject, AsmOutcome::Err(_)) | (Expect::Accept, AsmOutcome::Ok(_)) => {}
+        (Expect::NoPanic, AsmOutcome::Ok(_)) | (Expect::NoPanic, AsmOutcome::Err(_)) => {
+            rep.count("unspecified_outcome", &format!("{}:{oc}", ic.class));
+        }
+        (Expect::Reject, AsmOutcome::Ok(_)) => {
+            rep.count("invalid_accepted_variants", &format!("{} :: {}", ic.class, truncate(&ic.variant.replace('\n', " "), 70)));
+            rep.violation(
+            format!("invalid-accepted/{}", ic.class),
+            format!("`{}` ({} context) is documented as invalid but assembles", truncate(&ic.variant, 120), ic.tpl),
+            wit(),
+        )}
+        (Expect::Reject, AsmOutcome::Panic(p)) => {
+            rep.count("invalid_panic_variants", &format!("{} :: {}", ic.class, truncate(&ic.variant.replace('\n', " "), 70)));
+            rep.violation(
+            format!("invalid-panic/{}/{}", ic.class, p.site()),
+            format!("`{}` ({} context) must be rejected with an error but the assembler panics: {} at {}", truncate(&ic.variant, 120), ic.tpl, p.message, p.location),
+            wit(),
+        )}
+        (Expect::NoPanic, AsmOutcome::Panic(p)) => rep.violation(
+            format!("panic/{}/{}", ic.class, p.site()),
+            format!("`{}` ({} context) panics the assembler: {} at {}", truncate(&ic.variant, 120), ic.tpl, p.message, p.location),
+            wit(),
+        ),
+        (Expect::Accept, AsmOutcome::Err(e)) => {
+            // a control that does not assemble means the corpus entry is wrong, not the assembler
+            rep.count("control_rejected", &format!("{} / {} / {}", ic.class, truncate(&ic.variant, 60), truncate(&e, 80)));
+            rep.inconclusive(format!("invalid-corpus-control-rejected:{}", ic.class));
+        }
+        (Expect::Accept, AsmOutcome::Panic(p)) => rep.violation(
+            format!("panic/compile/{}", p.site()),
+            format!("valid control `{}` ({} context) panics the assembler: {}", truncate(&ic.variant, 120), ic.tpl, p.message),
+            wit(),
+        ),
+    }
+}
+
+// MODULE INTERFACE
+// ================================================================================================
+
+pub fn meta() -> Meta {
+    Meta {
+        level: "exploration",
+        rule: "history: one evaluation = one program of a random compile sequence on ONE assembler instance (generated universe of 2-4 libraries / 3-7 modules forming an import DAG with aliases, re-exports, shared MAST roots, literal-hash vs procref procedures, optional kernel) compared against the same source compiled on a FRESH instance: outcome, program hash, printed MAST, kernel, code-block-table membership of every universe root + full table dump, presence of every statically referenced call/syscall/procref target (MAST walk through the table + model of the sources), and the result of executing both programs; each step counts twice (cold, warm); distinct = distinct (cache-state class of the step, set of invocation kind x locality in the program source). order: one evaluation = one (program, permutation of with_library order) vs order 0..n. re-export: one evaluation = one re-exported procedure vs its original (exec root, call program + table). invalid: one evaluation = one (rejection class from docs/src/user_docs/assembly, boundary variant, syntactic context) assembled in this build; distinct = (class, context, expectation)".into(),
+        assumptions: vec![
+            "MAST roots used by the model are obtained from fresh assembler instances (`begin exec.p end`), i.e. a cold single compilation is trusted for root hashes (not for call sets)".into(),
+            "rejection classes and their boundaries are taken from the user docs; where the docs leave behaviour open (empty bodies, decorator-only bodies are valid) only 'no panic' is required".into(),
+            "code block tables cannot be enumerated through the public API: membership is probed for every root of the universe and the Debug dump is compared".into(),
+        ],
+    }
+}
+
+fn all_templates(avail: &[usize]) -> Vec<usize> {
+    avail.to_vec()
+}
+
+pub fn run(cfg: &Cfg) -> Report {
+    let shards = 64;
+    let universes = cfg.n(48, 1500);
+    let reports = par_map(shards, |sh| {
+        let mut rng = rng_for(cfg.seed, "C11", sh as u64);
+        let mut rep = Report::new();
+        let t0 = std::time::Instant::now();
+        // invalid corpus: shard 0 = every class x variant x context, others = random contexts
+        if sh == 0 {
+            directed(&mut rep);
+            let corpus = invalid_corpus(&mut all_templates);
+            for ic in &corpus.cases {
+                eval_invalid(ic, &mut rep);
+            }
+            if let Some(ic) = corpus.cases.iter().find(|c| c.expect == Expect::Reject) {
+                rep.sample(json!({"kind": "invalid", "class": ic.class, "template": ic.tpl, "src": ic.case.src}));
+            }
+        } else if sh % 8 == 1 {
+            let mut r2 = rng_for(cfg.seed, "C11-corpus", sh as u64);
+            let mut pick = |avail: &[usize]| -> Vec<usize> { vec![avail[r2.gen_range(0..avail.len())]] };
+            let corpus = invalid_corpus(&mut pick);
+            for ic in &corpus.cases {
+                eval_invalid(ic, &mut rep);
+            }
+        }
+        for _ in 0..universes {
+            if let Some(u) = gen_universe(&mut rng, &mut rep) {
+                let n_seqs = rng.gen_range(2..=3);
+                history_for_universe(&mut rng, &u, n_seqs, &mut rep);
+            }
+        }
+        if std::env::var("VERIF_C11_TIMING").is_ok() {
+            eprintln!("shard {sh}: {:.2}s", t0.elapsed().as_secs_f64());
+        }
+        rep
+    });
+    let mut rep = merge_all(reports);
+    // floors
+    for k in KINDS {
+        rep.floor(rep.get_count("kind_cold", k) >= 20, &format!("{k}-compiled-cold"));
+        rep.floor(rep.get_count("kind_warm", k) >= 20, &format!("{k}-compiled-warm"));
+    }
+    for c in ["warm-same-module", "warm-different-module-equal-root", "warm-uncached"] {
+        rep.floor(rep.get_count("cache_class", c) >= 10, &format!("cache-class-{c}"));
+    }
+    for k in ["exec", "call", "procref", "dynexec", "dyncall"] {
+        for l in ["local", "imported", "re-exported"] {
+            rep.floor(rep.get_count("coverage", &format!("cold/{k}/{l}")) >= 1, &format!("{k}-{l}"));
+        }
+    }
+    let classes: BTreeSet<String> = invalid_corpus(&mut all_templates).cases.iter().map(|c| format!("{}:{}", c.class, match c.expect { Expect::Reject => "reject", Expect::NoPanic => "no-panic", Expect::Accept => "control" })).collect();
+    for c in &classes {
+        rep.floor(rep.get_count("invalid_class", c) >= 1, &format!("invalid-class-{c}"));
+    }
+    let ok_exec = rep.get_count("exec_outcome", "cold:ok");
+    rep.floor(ok_exec >= 200, "at-least-200-successful-executions");
+    rep.floor(rep.get_count("library_order", "libs=2") + rep.get_count("library_order", "libs=3") + rep.get_count("library_order", "libs=4") >= 100, "library-order-permutations");
+    rep.floor(rep.get_count("re_export", "exec") >= 20 && rep.get_count("re_export", "call") >= 10, "re-exports");
+    // the generator must produce valid, stack-neutral programs and a consistent model
+    let rejected = rep.get_count("harness", "generated-program-rejected");
+    let compiled = rep.get_count("compile_outcome", "cold:ok/warm:ok");
+    rep.floor(rejected * 50 <= compiled.max(1), "generated-programs-compile");
+    rep.floor(rep.get_count("model_consistency", "gap") == 0, "model-predicts-every-call-target");
+    rep.floor(rep.get_count("stack_neutral", "no") == 0, "generated-programs-stack-neutral");
+    rep.floor(rep.get_count("legit_dynamic_miss", "cold") >= 1, "dynamic-miss-observable");
     rep
 }
 
-pub fn replay(_v: &serde_json::Value, _rep: &mut Report) {}
+pub fn replay(v: &Value, rep: &mut Report) {
+    match v.get("kind").and_then(|k| k.as_str()).unwrap_or("") {
+        "history" => {
+            let Some(world) = World::from_json(v) else { return };
+            let Ok(built) = world.build() else { return };
+            let items: Vec<SeqItem> = v.get("sequence").and_then(|s| s.as_array()).map(|a| a.iter().filter_map(SeqItem::from_json).collect()).unwrap_or_default();
+            if items.is_empty() {
+                return;
+            }
+            let idx = v.get("index").and_then(|i| i.as_u64()).map(|i| i as usize).unwrap_or(items.len() - 1).min(items.len() - 1);
+            let seq: Vec<&SeqItem> = items.iter().collect();
+            let mut roots: BTreeSet<W> = BTreeSet::new();
+            for it in &items {
+                roots.extend(it.needed.keys().copied());
+                roots.extend(it.dynk.keys().copied());
+            }
+            rep.eval("replay|history");
+            run_sequence(&world, &built, &seq, Some(idx), &roots, rep);
+        }
+        "order" => {
+            let Some(world) = World::from_json(v) else { return };
+            let Ok(built) = world.build() else { return };
+            let src = v.get("src").and_then(|s| s.as_str()).unwrap_or("");
+            let perm: Vec<usize> = v.get("perm").and_then(|p| p.as_array()).map(|a| a.iter().filter_map(|x| x.as_u64().map(|x| x as usize)).collect()).unwrap_or_default();
+            if perm.len() != built.len() || perm.iter().any(|i| *i >= built.len()) {
+                return;
+            }
+            rep.eval("replay|order");
+            if let Built::Ok(a) = fresh(&world, &built, &identity(built.len())) {
+                let base = fingerprint(&compile(&a, src));
+                order_one(&world, &built, src, &perm, &base, rep);
+            }
+        }
+        "reexport" => {
+            let Some(world) = World::from_json(v) else { return };
+            let Ok(built) = world.build() else { return };
+            let (via, direct) = (v.get("via").and_then(|s| s.as_str()).unwrap_or(""), v.get("direct").and_then(|s| s.as_str()).unwrap_or(""));
+            rep.eval("replay|reexport");
+            if via.contains("call.") {
+                check_reexport_call(&world, &built, via, direct, rep);
+            } else if fresh_hash(&world, &built, via) != fresh_hash(&world, &built, direct) {
+                rep.violation("re-export/root-mismatch/exec", "re-exported procedure compiles to a different MAST root", v.clone());
+            }
+        }
+        "invalid" => {
+            let Some(case) = v.get("case").and_then(Case::from_json) else { return };
+            let expect = match v.get("expect").and_then(|e| e.as_str()).unwrap_or("") {
+                "Reject" => Expect::Reject,
+                "Accept" => Expect::Accept,
+                _ => Expect::NoPanic,
+            };
+            let tplname = v.get("template").and_then(|t| t.as_str()).unwrap_or("");
+            let tpl = TPL_NAMES.iter().copied().find(|n| *n == tplname).unwrap_or("whole-source");
+            let ic = InvCase {
+                class: v.get("class").and_then(|c| c.as_str()).unwrap_or("").to_string(),
+                variant: v.get("variant").and_then(|c| c.as_str()).unwrap_or("").to_string(),
+                tpl,
+                case,
+                expect,
+            };
+            eval_invalid(&ic, rep);
+        }
+        _ => {}
+    }
+}
